@@ -12,2250 +12,1929 @@ Definition show_fres (r : fres) : string :=
   end.
 Definition check (rs : list rune) : string := digest (show_fres (format_res rs)).
 Definition full (rs : list rune) : string := show_fres (format_res rs).
-Eval vm_compute in ("<<<M3888>>>" ++ check (runes_of_ascii "packet len {
-    @calculatedFrom(""`tick`"")
-    repeat zchar[00] chars `a\`,
-    u8x MetaDataX `line1
-        line2`,
-    @calculatedFrom(""a\""b"")
-    match matchKey as asx {
-        [""CRC32"", ""a\""b""] : msg_type,
-    },
-    i8 string_ @calculatedFrom(""{,}""),
-    @lengthOf(lengthOf)
-    zchar[42] _x `line1
-        line2`,
-    @lengthOf(asx)
-    repeat int8 Header,
-    repeat crc {
-        int8 i64_ @calculatedFrom(""{,}""),
-    },
-    repeat _x i8i8 `line1
-        line2`,
-    float64 stringy,
-    MetaDataX {
-        charz {
-            int16 matchKey,
-            repeat i64_,
-            char[00] Z9_ `
-                        `,
-            match As as Packet {
-                3 : crc,
-                [1, 00] : Header,
-                255 : _x,
-                42 : body,
-                [0] : chars,
-                [4294967296, 65535] : chars,
-            },
-        },
-    },
-}
-
-MetaData falsey {
-    char[255] u128,
-    u8 Header `tab	here`,
-    string float,
-}
-
-root packet int {
-    Logon i64_,
-    @calculatedFrom(""1"")
-    zchar {
-        u {
-            zchar[255] Pad,
-        },
-        stringy {
-            Pad metadata `u8 x,`,
-        },
-        repeat string i8i8,
-        char[] As @calculatedFrom(""\n""),
-    },
-    @lengthOf(packetx)
-    @lengthOf(i64_)
-    body `line1
-        line2`,
-    @lengthOf(roots)
-    match MetaDataX as uint8x {
-        // `tick` ""quote"" 'q'
-        [007, 255, 00] : body,
-        [
-            65535, 1, 1, 0, ""1"",
-            ""\n"", ""CRC32""
-        ] : trueish,
-    },
-    uint64 Foo,
-    zchar {
-        metadata @lengthOf(Pad) `crlf
-                line`,
-        match u as charz {
-            65535 : int,
-            [""1""] : a1,
-            [4294967296, 00, 00, """ ++ [233]%N ++ runes_of_ascii "t" ++ [233]%N ++ runes_of_ascii """, """ ++ [28040; 24687]%N ++ runes_of_ascii """] : matchKey,
-            [""a\\""] : Logon,
-        },
-        repeat rootA {
-            int16 Foo @lengthOf(rootA),
-            options1 `u8 x,`,
-        },
-    },
-    match chars as u {
-        [
-            007, ""it's"", """ ++ [233]%N ++ runes_of_ascii "t" ++ [233]%N ++ runes_of_ascii """, ""abc"", ""\n"",
-            """"
-        ] : repeatCount,
-        65535 : Z9_,
-        [007, ""abc"", ""// no comment"", """ ++ [28040; 24687]%N ++ runes_of_ascii """] : falsey,
-        00 : string_,
-    },
-    char repeatCount,
-}
-
-packet Foo {
-    char[] a1 @calculatedFrom("""") `line1
-        line2`,
-    uint16 MetaDataX `say ""hi""`,
-    char[] A,
-    // trailing space 
-    // " ++ [128512]%N ++ runes_of_ascii " emoji
-    f64 int @lengthOf(Pad),
-    u32 BodyLength,
-    float64 trueish @lengthOf(lengthOf) `crlf
-        line`,
-    @tag(255)
-    match Z9_ as tag {
-        [4294967296, ""a\""b"", ""{,}"", ""{,}""] : Pad,
-        1 : lengthOf,
-        0123456789 : msg_type,
-        ""// no comment"" : BodyLength,
-        [""1""] : string_,
-        [
-            3, 0, 1, 1, 00,
-            ""\" ++ [233]%N ++ runes_of_ascii """, """"
-        ] : asx,
-    },
-    body `say ""hi""`,
-}
-
-options {
-    x = '0';
-    u8x = u64;
-    // c
-    //	t
-    string_ = ""a\""b""
-}")).
-Eval vm_compute in ("<<<M87>>>" ++ check (runes_of_ascii "packet Logon{
-    repeat string
-a1 `crlf
-line` ,@lengthOf(
-Pad
-    ) match  Pad as
-u8x
-    { 4294967296
-//
-// " ++ [128512]%N ++ runes_of_ascii " emoji
-: // `tick` ""quote"" 'q'
-i8i8 , } ,
-asx a1 ,
-// a // b
-// @lengthOf(
-@lengthOf(body ) //x
-msg_type int
-,tag`line1
-line2` , repeat
-// packet A { u8 x, }
-// packet A { u8 x, }
-Z9_{ u16
-    packetx	@calculatedFrom(
-    ""it's"" ) , } , @lengthOf(
-// " ++ [128512]%N ++ runes_of_ascii " emoji
-//	t
-Logon ) // " ++ [128512]%N ++ runes_of_ascii " emoji
-@rightPad (
-)	@calculatedFrom(""" ++ [233]%N ++ runes_of_ascii "t" ++ [233]%N ++ runes_of_ascii """ ) repeat roots	u128 // `tick` ""quote"" 'q'
-,@calculatedFrom( ""{,}"") chars{ match // " ++ [128512]%N ++ runes_of_ascii " emoji
-roots as Foo {
-    10 :trueish
-// trailing space 
-// @lengthOf(
-, },} , i8i8 ,@calculatedFrom( ""x y"" ) @calculatedFrom( ""a\""b"" ) repeat Z9_
-{  f32a msg_type ,
-repeat o{
-// " ++ [128512]%N ++ runes_of_ascii " emoji
-// @lengthOf(
-zchar[ 0	]
-charz @calculatedFrom(""CRC32"" ) ,
-}
-,}
-    ,
-} root
-    packet	BodyLength
-{ calculatedFrom
-{
-char[]x@calculatedFrom(
-""\n""
-)
-    , // @lengthOf(
-_x @calculatedFrom( ""`tick`""
-    ),	repeat u128,float Packet
-`" ++ [28040; 24687; 31867; 22411]%N ++ runes_of_ascii "`
-    ,}
-    , repeat Foo	{ uint64 a1
-    // `tick` ""quote"" 'q'
-    , } , /// triple
-repeat char[ 42 ] matchKey `it's` ,	lengthOf{ // " ++ [27880; 37322]%N ++ runes_of_ascii "
-u128 trueish  `// not a comment`, match
-chars as MetaDataX {
-00
-    : x_y_z 1
-: trueish, [ 0123456789 ]
-    :	calculatedFrom , [
-    ""CRC32"" ,	""\" ++ [233]%N ++ runes_of_ascii """
-, ""// no comment""
-    , ""it's"" ,	""packet""
-    , 007 ] : Pad
-,
-} ,  } /// triple
-, repeat char[] Logon // `tick` ""quote"" 'q'
-, @leftPad
-    ( '0' //x
-) f32
-    Pad
-    @calculatedFrom(""CRC32"" ) , @lengthOf(
-BodyLength )  options1 @calculatedFrom( ""`tick`"") , A {
-// " ++ [27880; 37322]%N ++ runes_of_ascii "
-//	t
-uint8 charz`u8 x,`
-, falsey x
-`line1
-line2`  , repeat
-    int8 Packet
-    ,zchar[ 1 ] float
-    , }
-, char[ 65535 ] matchKey
-@calculatedFrom( //
-""x y""
-    ) // trailing space 
-, @lengthOf( o//x
-)match	chars
-    as As {	1
-    : f32a
-,
-} , }
-packet
-//	t
-// packet A { u8 x, }
-int
-{ @calculatedFrom( // trailing space 
-""// no comment"" ) @rightPad ( ) @calculatedFrom( """ ++ [233]%N ++ runes_of_ascii "t" ++ [233]%N ++ runes_of_ascii """ ) roots _x
-/// triple
-// trailing space 
-`say ""hi""`	, // `tick` ""quote"" 'q'
-} options { o= ""{,}"" Pad =
-    255 ;  } // " ++ [27880; 37322]%N)).
-Eval vm_compute in ("<<<M913>>>" ++ check (runes_of_ascii "MetaData trueish { f32
-a1 `it's` , A // " ++ [128512]%N ++ runes_of_ascii " emoji
-lengthOf`tab	here` , } MetaData	BodyLength
-{
-    // @lengthOf(
-    char[
-0123456789 ]stringy
-//	t
-// c
-,
-} packet string_ { @rightPad	('0' ) asx
-    , @calculatedFrom(""abc""
-    )repeat char[ 4294967296 // `tick` ""quote"" 'q'
-] packetx ,
-// a // b
-// " ++ [27880; 37322]%N ++ runes_of_ascii "
-repeat
-o
-    // " ++ [27880; 37322]%N ++ runes_of_ascii "
-    { // `tick` ""quote"" 'q'
-int64
-u8x,repeat u32 leftPad
+Eval vm_compute in ("<<<M273>>>" ++ check (runes_of_ascii "packet len
+{  @calculatedFrom( ""`tick`"" )	repeat zchar[ 00
+    ]chars //	t
 `a\`
-, // packet A { u8 x, }
-char[] charz `doc`
-,zchar[
-65535
-] lengthOf@calculatedFrom(  ""a\\""
-    )
-, }  ,
-    // " ++ [27880; 37322]%N ++ runes_of_ascii "
-    leftPad
-@calculatedFrom(	""// no comment"")`// not a comment` ,
-    int32 int
-,pack {zchar,
-} // c
-,repeat zchar[65535 ]
-    // c
-    x ,
-@rightPad  (  '0' )
-//x
-// c
-float32 Z9_
-, @calculatedFrom(
-// a // b
-// " ++ [27880; 37322]%N ++ runes_of_ascii "
-""`tick`""
-    )
-    match
-uint8x
-    as
-Header // `tick` ""quote"" 'q'
-{[42
-    // " ++ [128512]%N ++ runes_of_ascii " emoji
-    ]
-    :f32a, 4294967296
-    :
-    matchKey , """ ++ [28040; 24687]%N ++ runes_of_ascii """
-    /// triple
-    : tag 1 :// a // b
-body
-, }
     ,
-@tag(// a // b
-007
-    )@calculatedFrom( ""a\\"" ) @lengthOf(
-metadata ) repeat chars ,}
-packet roots { char[007
-    ]
-Foo@lengthOf(zchar ) `line1
-line2` , @tag( 255 ) match crc as lengthOf {[ ""// no comment"" ]
-:
-    Header ,
-    //x
-    1 :// " ++ [128512]%N ++ runes_of_ascii " emoji
-crc ,""\n"" :  options1 , [ 1, """ ++ [28040; 24687]%N ++ runes_of_ascii """
-    ,
-    00,	1, //	t
-42 ,65535  ] : Z9_,}
-//x
-// a // b
-,zchar[ 4294967296
-] As `say ""hi""`
-    ,	@lengthOf( stringy ) chars
-{float32 u8x,} ,
-    char[ 255 ] Pad
-    @lengthOf(u8x ) ,
-int64 metadata,
-    // c
-    uint8 x_y_z	@lengthOf(
-    //
-    Header )`two words`,	repeat zchar[ 42 ] calculatedFrom `it's`	, @rightPad
-(
-'\x00' )
-    repeat
-    crc
-    // @lengthOf(
-    {
-    // trailing space 
-    repeat As {
-i64_`line1
-line2` , } ,}
-, }
-")).
-Eval vm_compute in ("<<<M497>>>" ++ check (runes_of_ascii "
-root
-packet  a1 { uint64
-    charz
-,
-BodyLength	_x`
-`
-    ,	u64 roots `tab	here`	,
-match calculatedFrom as calculatedFrom { 10:  leftPad } ,
-i64_ @calculatedFrom( ""// no comment"" )
-,
-match
-// a // b
-/// triple
-len as BodyLength { [ ""CRC32"" //x
-, ""\" ++ [233]%N ++ runes_of_ascii """]
-:  MetaDataX , } ,uint64 trueish `u8 x,`// trailing space 
-, repeat
-i32 options1
-,// @lengthOf(
-}
-packet pack//	t
-{float32 asx
-    `a\` , int64 charz
-    //	t
-    @lengthOf(  repeatCount ) `" ++ [28040; 24687; 31867; 22411]%N ++ runes_of_ascii "`, @lengthOf(	u8x )
-BodyLength @calculatedFrom(  ""a\\"")  , @lengthOf(
-    Packet )repeat
-    u32 Pad	,/// triple
-}	packet options1{
-    @rightPad  ('0'
-    )i8i8  @lengthOf( stringy) ,
-int64
-    As ,	f64 crc
-    @lengthOf( u128 ) , rootA @calculatedFrom( ""1"" ) `a\`	,
-    }packet _x { repeat T x_y_z
-// trailing space 
-// @lengthOf(
-`line1
-line2`
-, }root	packet //x
-Foo
-{ @lengthOf(
-Logon
-) @calculatedFrom( ""{,}""
-    ) @calculatedFrom( ""`tick`"" )match roots// packet A { u8 x, }
-as charz	{ 7 :
-string_
-//
-// `tick` ""quote"" 'q'
-},u64// trailing space 
-u@calculatedFrom( ""\" ++ [233]%N ++ runes_of_ascii """ )
+u8x
 // trailing space 
 // a // b
-,
-@tag(
-007 )
-    // packet A { u8 x, }
-    @lengthOf( zchar ) match body as trueish
-{ [ 10
-, ""packet"" ,3 ,
-    0 ,
-    00 , """"	]
-:repeatCount
-    // a // b
-    , // " ++ [128512]%N ++ runes_of_ascii " emoji
-[ // `tick` ""quote"" 'q'
-4294967296 ]  : Logon [ ""CRC32"" , ""it's""
-] :  x_y_z ,} ,  T x
-,Pad , u8x T
-`{ , }`  ,@lengthOf( As
-    ) match o as repeatCount// a // b
-{[
-    255  ] :uint8x// a // b
-, } , u128 Foo ,} 	 ")).
-Eval vm_compute in ("<<<M878>>>" ++ check (runes_of_ascii "root packet a1
-{ uint64 body , @lengthOf(
-rootA )
-char[ 1
-    ] zchar //
-, BodyLength // @lengthOf(
-,
-string_
-, char[] float
-@lengthOf(lengthOf  ) , //
-uint32 asx`" ++ [28040; 24687; 31867; 22411]%N ++ runes_of_ascii "` , char[]	uint8x @calculatedFrom( ""abc""
-    )
-, @tag( 255 )@calculatedFrom( ""a\\"" )zchar[
-// a // b
-// @lengthOf(
-3 ]
-    options1 ,
-    } packet charz { @rightPad	( ' ' ) matchKey @lengthOf(u) `u8 x,` // @lengthOf(
-,@lengthOf(len) @lengthOf(falsey)
-    u @calculatedFrom( ""a\\"" ), match i8i8 as
-    Packet {
-    [""a	b"" ]
-: roots // `tick` ""quote"" 'q'
-,
-    ""abc"":
-    // trailing space 
-    trueish	, [""a\\"",
-    65535 ] // packet A { u8 x, }
-:
-    asx
-0123456789:// " ++ [27880; 37322]%N ++ runes_of_ascii "
-a1	, 1
-// packet A { u8 x, }
-//
-:
-    i64_ } ,  match len as Header {	[
-    0
-    , 0123456789 , 7 ,0 , ""\n""
-    ,""a\\""
-// a // b
-//
-]:
-o
-    , ""x y""
-    // `tick` ""quote"" 'q'
-    :
-    crc [ 3 ,""\" ++ [233]%N ++ runes_of_ascii """  ]
-    : lengthOf//
-,  [10,""x y"" ] :
-    u8x
-1
-:Packet /// triple
-, 007 :
-    Z9_ ,
-} , @calculatedFrom(
-""packet""
-    ) @tag(65535) repeat Pad rootA , @tag(
-4294967296  )@lengthOf(stringy ) crc //
-@lengthOf( uint8x ) `" ++ [28040; 24687; 31867; 22411]%N ++ runes_of_ascii "` , }
-    // @lengthOf(
-    MetaData u8x { len
-calculatedFrom	, // packet A { u8 x, }
-u16 asx , } MetaData Logon
-{ u16 chars  `` ,
-A matchKey `a\`,char[007 ]Header , len uint8x,
-    A Packet `line1
+MetaDataX `line1
 line2`
-//	t
-//x
-,
-string trueish
-    `u8 x,` ,	}
-")).
-Eval vm_compute in ("<<<M3763>>>" ++ check (runes_of_ascii "packet matchKey {
-    zchar[3] A,
-    msg_type `a\`,
-    MetaDataX As,
-    @lengthOf(Z9_)
-    repeat f32 _x,
-    @lengthOf(Pad)
-    uint32 Logon,// a // b
-    @tag(4294967296)
-    T `doc`,
-    len,
-    body {
-        repeat o {
-            match i8i8 as body {
-                65535 : lengthOf,
-                [""\n""] : i64_,
-                3 : asx,
-                [007, ""packet"", ""{,}"", ""// no comment""] : repeatCount,
-                [7, 0123456789, ""// no comment"", ""\" ++ [233]%N ++ runes_of_ascii """, ""a\""b""] : roots,
-            },
-            match repeatCount as As {
-                """" : o,
-            },
-        },
-        zchar[0] BodyLength ``,
-        lengthOf,
-    },
-    i16 Z9_,
-}
-
-packet tag {
-    @tag(1)
-    repeat float i8i8 `" ++ [28040; 24687; 31867; 22411]%N ++ runes_of_ascii "`,
-    @rightPad()
-    @lengthOf(_x)
-    @rightPad('0')
-    Packet,
-    Foo @lengthOf(u128) `doc`,
-    @tag(007)
-    // packet A { u8 x, }
-    string repeatCount,
-    o {
-        match leftPad as lengthOf {
-            [0123456789, ""1""] : x_y_z,
-            [""" ++ [128512]%N ++ runes_of_ascii """] : i8i8,
-            [""a\""b"", ""a	b""] : Foo,
-            [""\" ++ [233]%N ++ runes_of_ascii """] : Pad,
-            [
-                42, 3, 00, 7, ""a	b"",
-                """ ++ [233]%N ++ runes_of_ascii "t" ++ [233]%N ++ runes_of_ascii """, """ ++ [28040; 24687]%N ++ runes_of_ascii """
-            ] : packetx,
-            42 : falsey,
-        },
-    },
-}
-
-packet body {
-}")).
-Eval vm_compute in ("<<<M534>>>" ++ check (runes_of_ascii "
-packet
-float
-{ @leftPad ( // packet A { u8 x, }
-'\x00' )
-    i64_ {string Z9_
-,} ,
-    @tag( //x
-0 )char[] u8x @calculatedFrom( ""a	b"" ) ,@lengthOf(	u128)int8
-    u	`two words` ,
-u64 Foo `a\` //x
-, @leftPad// packet A { u8 x, }
-(
-    '0'
-    )
-repeat
-//x
-// " ++ [128512]%N ++ runes_of_ascii " emoji
-repeatCount //x
-{ repeat Pad {repeat  tag {
-    char[
-00 ] //	t
-Logon `it's` , string_, }
-    ,  match // " ++ [128512]%N ++ runes_of_ascii " emoji
-As // c
-as
-    matchKey
-    {
-    7:lengthOf } ,
-    match u128  as tag {
-    [ 7 ]
-    :// " ++ [128512]%N ++ runes_of_ascii " emoji
-Packet
-    //	t
-    , """ ++ [28040; 24687]%N ++ runes_of_ascii """: Foo ,65535 // " ++ [128512]%N ++ runes_of_ascii " emoji
-: calculatedFrom
-//x
-//x
-}/// triple
-, // a // b
-} , // " ++ [128512]%N ++ runes_of_ascii " emoji
-f32
-options1 `doc`// c
-, // trailing space 
-} ,@leftPad ( '0'	) match  rootA // packet A { u8 x, }
-as
-i64_ {3
-// " ++ [128512]%N ++ runes_of_ascii " emoji
-//
-: msg_type , ""abc"": rootA ,
-    //	t
-    [ ""CRC32"" ]
-: float ,10 : pack ,""" ++ [128512]%N ++ runes_of_ascii """
-:	tag } ,
-@rightPad (
-    // trailing space 
-    '\x00')	char[ 65535] _x @calculatedFrom( """ ++ [128512]%N ++ runes_of_ascii """	), char[ 4294967296 ] lengthOf @calculatedFrom(""// no comment"" ) ,@leftPad (  ' ' )zchar[007 ] options1 ,/// triple
-}	packet
-    // " ++ [27880; 37322]%N ++ runes_of_ascii "
-    rootA {
-} packet charz
-    { repeat
-As`` ,} packet f32a {	}
-    MetaData	roots { body matchKey `// not a comment`,
-}
-")).
-Eval vm_compute in ("<<<M4011>>>" ++ check (runes_of_ascii "packet  u128
-
-{
-
-    @lengthOf(
-
-    x_y_z
-
-)
-@lengthOf(
-stringy
-)
-	@lengthOf( _x ) zchar[ 
     // c
-    // c
-	4294967296
-    ] asx@calculatedFrom(""\" ++ [233]%N ++ runes_of_ascii """ 
-)`
-` ,
-
-    char[  0
-    ]
-matchKey ,	rootA u128
-    ,
-	metadata
-    metadata, zchar[3 ]string_
-	`" ++ [233]%N ++ runes_of_ascii "` ,  
-      // `tick` ""quote"" 'q'
-
-	// " ++ [27880; 37322]%N ++ runes_of_ascii "
-      @calculatedFrom(""a	b"" )
-	char	roots  `" ++ [28040; 24687; 31867; 22411]%N ++ runes_of_ascii "`,  repeat
-zchar[
-	10
-]
-
-pack`
-`,@calculatedFrom(	""{,}""  ) 
-@lengthOf(  //	t
-		Foo
-    )
-	packetx { // " ++ [128512]%N ++ runes_of_ascii " emoji
-	match 
-i8i8
-    as
-
-    Header {  255 :
-Z9_ """ ++ [233]%N ++ runes_of_ascii "t" ++ [233]%N ++ runes_of_ascii """
-: tag, [ 7 , 1  , 
-""// no comment""
-, 
-""// no comment"",
-    3
-, """", 	 // `tick` ""quote"" 'q'
-
-1
-    ]
-: lengthOf
-
-3:
-    asx
-	,
-    [ 
-42
-
-    , 0
-    , 1
-    ] :	Z9_  ,
-10	: A }, 
-} , }
-	root
-    packet
-	T 
-{/// triple
-		int32
-	roots`two words`  ,	stringy ,
-
-    @rightPad
-
-    (  '\x00') float64
-
-len
-	@lengthOf( 
-o )
-	,match body	// `tick` ""quote"" 'q'
-
-as
-
-    uint8x{ 10 
-: 
-tag,
-}
-,repeat
-
-u8 Pad
-    `" ++ [28040; 24687; 31867; 22411]%N ++ runes_of_ascii "`
-	,
-
-    repeat
-	char[]
-	float// c
-    ,
-	@calculatedFrom( ""packet"" 
-) u16  x
-    @lengthOf(u8x  )
-        // c
-  // a // b
-  ,} 	 //x
-")).
-Eval vm_compute in ("<<<M1345>>>" ++ check (runes_of_ascii "
-MetaData u128 { } packet string_
-{ @lengthOf(	i64_
-)
-    /// triple
-    repeat u16
-    a1 , falsey	msg_type `doc`//
-,@leftPad('\x00' )
-u64 i64_
-@calculatedFrom(
-    //x
-    """ ++ [28040; 24687]%N ++ runes_of_ascii """ )
-,
-    match
-    body as len {""" ++ [128512]%N ++ runes_of_ascii """ :charz
-    , //x
-} , BodyLength
-    `two words` // `tick` ""quote"" 'q'
-,  @leftPad ( '0'
-) repeat char
-o
-,
-@tag( 42 // `tick` ""quote"" 'q'
-) @tag( 1 )@calculatedFrom(""{,}""//
-)
-    u64 matchKey
-@lengthOf( /// triple
-charz)
-    `// not a comment`
-    ,	@calculatedFrom( ""1"")u8
-A @lengthOf(
-x_y_z )
-    ,	@calculatedFrom( // a // b
-""// no comment"" ) @lengthOf( falsey )	@calculatedFrom(""\" ++ [233]%N ++ runes_of_ascii """) match tag as f32a { [ ""\n""	, // " ++ [27880; 37322]%N ++ runes_of_ascii "
-""x y"" ,
-4294967296  , 00 , ""\n"" , 255
-]:
-    float ,
-[ ""\" ++ [233]%N ++ runes_of_ascii """
-] :packetx ,
-    // " ++ [27880; 37322]%N ++ runes_of_ascii "
-    0 :
-Z9_
-    , [
-""" ++ [233]%N ++ runes_of_ascii "t" ++ [233]%N ++ runes_of_ascii """
-]// `tick` ""quote"" 'q'
-:	rootA
-    ,} , } options{ f32a =
-char[ 00 ]
-    // `tick` ""quote"" 'q'
-    ;
-tag =
-4294967296 ; rootA=""{,}"" } options
-    {
-//	t
-// `tick` ""quote"" 'q'
-msg_type =""\n"" ; f32a
-=
-""// no comment""
-//x
-// `tick` ""quote"" 'q'
-; falsey = 65535 ;}
-")).
-Eval vm_compute in ("<<<M202>>>" ++ check (runes_of_ascii "root packet body{
-@tag(
-4294967296
-    )
-As @calculatedFrom(""" ++ [128512]%N ++ runes_of_ascii """ )
-    `a\` , /// triple
-} root packet
-    uint8x
-{ MetaDataX{ repeat
-matchKey lengthOf , repeat u32 uint8x
-// packet A { u8 x, }
-// a // b
-`doc`
-    /// triple
-    ,
-} ,  } options { int // a // b
-=
-    ""abc"" } packet
-    // trailing space 
-    u8x {
-} root
-packet // " ++ [128512]%N ++ runes_of_ascii " emoji
-falsey {repeat float32	u , repeat	char[]
-// " ++ [128512]%N ++ runes_of_ascii " emoji
-// packet A { u8 x, }
+    ,@calculatedFrom( ""a\""b"" ) match
+    matchKey as asx {
+    [ ""CRC32"" , ""a\""b""
+]// " ++ [27880; 37322]%N ++ runes_of_ascii "
+:
 msg_type
-    `
-` , @leftPad ( ' ')
-    @tag(255
-)match Header as msg_type
-    { 3 :uint8x
     ,
-    255 :
-x , // trailing space 
-7 // " ++ [27880; 37322]%N ++ runes_of_ascii "
-: leftPad
-// c
-// `tick` ""quote"" 'q'
-""" ++ [28040; 24687]%N ++ runes_of_ascii """
-// packet A { u8 x, }
-// c
-: Packet ,[ 4294967296
-    ,""1"" ] :
-    T , } ,
-    //	t
-    Logon @calculatedFrom( ""x y"")  `it's`
-, string charz @calculatedFrom(
-// " ++ [128512]%N ++ runes_of_ascii " emoji
-//	t
-""abc""
-) ,
-string options1	,
-/// triple
-/// triple
-@lengthOf(
-//
-//x
-As
-    ) repeat zchar[ // `tick` ""quote"" 'q'
-7 ]zchar , @lengthOf(
-    crc)x_y_z
-    @calculatedFrom(
-""" ++ [28040; 24687]%N ++ runes_of_ascii """ ) ,
-}
-")).
-Eval vm_compute in ("<<<M3833>>>" ++ check (runes_of_ascii "
-packet
-
-x  {
-	u16 msg_type @lengthOf(
-
-    BodyLength)	, // trailing space 
-    @calculatedFrom( 
-""" ++ [28040; 24687]%N ++ runes_of_ascii """ ) repeat
-Header 
-{  char[
-
-    0123456789]// " ++ [128512]%N ++ runes_of_ascii " emoji
-
-  repeatCount	, zchar[ 7 ]
-    i64_ @calculatedFrom(
-
-""" ++ [28040; 24687]%N ++ runes_of_ascii """) ,repeat
-    T  zchar`tab	here` ,}
-
-    ,uint8
-
-    body
-
-`doc`,
-    repeat char[]i8i8  ,
-	uint32 f32a@calculatedFrom(  ""`tick`""
-
-    // packet A { u8 x, }
-
-  // packet A { u8 x, }
-
-	) ,  @rightPad(	' ')
-
-    match	rootA
-	as
-	matchKey  {
-42:
-    lengthOf
-// `tick` ""quote"" 'q'
-	""// no comment""
-:  Z9_
-
-    ,[  ""a\\"" ,  /// triple
-
-1 
-]
-
-: 
-// @lengthOf(
-len
-	, 
-10 
-:
-trueish	,
-},
-	f64
-Logon  @lengthOf(
-T)  //
-		`crlf
-line`
-
-,match
-/// triple
-	// @lengthOf(
-float
-as
-i8i8 {
-
-""\n""
-	:	i64_  ,
-},
-    @lengthOf(  u8x  )// trailing space 
-@leftPad ('\x00')char[
-
-    007
-]
-body
-`it's` , 
-@leftPad
-(
-
-'0' ) string 
-crc
-@calculatedFrom(
-
-    ""a\\""  )`" ++ [28040; 24687; 31867; 22411]%N ++ runes_of_ascii "`  , } ")).
-Eval vm_compute in ("<<<M4503>>>" ++ check (runes_of_ascii "  MetaData
-
-    crc  {
-
     }
-packet
-options1 { u32  int @lengthOf( int )
+, i8 string_ @calculatedFrom( ""{,}"" )
+    ,@lengthOf(
+lengthOf
+    //
+    ) zchar[42 ]
+    _x
+// packet A { u8 x, }
+/// triple
+`line1
+line2` ,
+    @lengthOf( asx) repeat// `tick` ""quote"" 'q'
+int8 Header , repeat crc {
+int8 i64_//x
+@calculatedFrom( ""{,}"" ) , } ,repeat _x i8i8 `line1
+line2` , float64// trailing space 
+stringy , MetaDataX { charz
+    { int16 matchKey, repeat
+    i64_,
+    char[ 00] Z9_ `
+` ,
+    match As
+    //x
+    as Packet { 3 : crc , [
+//	t
+// @lengthOf(
+1 ,
+00
+]: Header // " ++ [27880; 37322]%N ++ runes_of_ascii "
+,	255 :_x , 42 : body
+,	[0	] : chars
+    [ 4294967296
+, 65535 ] :chars , }
+/// triple
+// @lengthOf(
+,  }
+// trailing space 
+// @lengthOf(
+, } , } MetaData falsey {
+char[
+255
+] u128 , u8 Header`tab	here`
+,
+string float ,} root packet int { Logon i64_  ,
+    @calculatedFrom(
+""1""
+) zchar { u {
+    zchar[
+255 ] Pad , } , stringy {
+    Pad metadata `u8 x,` ,
+}	, repeat	string i8i8, char[]
+    As@calculatedFrom(
+""\n"" ) ,}
+    // " ++ [27880; 37322]%N ++ runes_of_ascii "
+    , @lengthOf( packetx // a // b
+) @lengthOf(
+    i64_ ) body `line1
+line2`,@lengthOf(roots)match
+// `tick` ""quote"" 'q'
+// trailing space 
+MetaDataX as uint8x { // `tick` ""quote"" 'q'
+[	007
+/// triple
+// " ++ [27880; 37322]%N ++ runes_of_ascii "
+, //x
+255
+    ,
+00]
+    :	body// c
+, [ 65535 , ""1"",// `tick` ""quote"" 'q'
+1  ,
+""\n""//	t
+, 1	,
+    ""CRC32""
+    ,
+    //	t
+    0
+    ] :trueish
+,
+} , uint64 Foo
+, zchar {metadata
+@lengthOf(Pad)//	t
+`crlf
+line` ,
+    match u as charz { 65535 :
+    //x
+    int
+[ ""1""]
+:
+// c
+//
+a1 , [4294967296 , 00,""" ++ [233]%N ++ runes_of_ascii "t" ++ [233]%N ++ runes_of_ascii """ , """ ++ [28040; 24687]%N ++ runes_of_ascii """ ,
+    00 ]: matchKey , [ ""a\\"" ] : Logon ,
+    },
+repeat rootA { int16
+Foo @lengthOf( rootA // " ++ [27880; 37322]%N ++ runes_of_ascii "
+),options1 `u8 x,` // trailing space 
+, }	,  },  match chars as u
+// " ++ [128512]%N ++ runes_of_ascii " emoji
+// " ++ [128512]%N ++ runes_of_ascii " emoji
+{ [//
+""it's"" , 007	, """ ++ [233]%N ++ runes_of_ascii "t" ++ [233]%N ++ runes_of_ascii """, ""abc"" ,""\n"" ,
+// " ++ [128512]%N ++ runes_of_ascii " emoji
+// " ++ [27880; 37322]%N ++ runes_of_ascii "
+"""" // c
+] :	repeatCount,
+65535
+    // " ++ [128512]%N ++ runes_of_ascii " emoji
+    :Z9_
+, [ 007  , ""abc"",""// no comment""
+, """ ++ [28040; 24687]%N ++ runes_of_ascii """ ] :  falsey ,
+00
+:
+    string_}
+,  char repeatCount , } packet Foo {char[]
+a1 @calculatedFrom( """")`line1
+line2`
+, uint16 // a // b
+MetaDataX
+    // packet A { u8 x, }
+    `say ""hi""`,char[] A ,
+// trailing space 
+// " ++ [128512]%N ++ runes_of_ascii " emoji
+f64 int @lengthOf(Pad  ) , u32
+    BodyLength
+, float64
+trueish @lengthOf(lengthOf )
+// `tick` ""quote"" 'q'
+// trailing space 
+`crlf
+line` , @tag(255 ) match Z9_ as tag { [ ""a\""b"",4294967296  ,  ""{,}"" ,""{,}""/// triple
+] :	Pad	, 1 : lengthOf ,	0123456789 : msg_type  , ""// no comment"":
+    BodyLength, [ ""1"" ] : string_ [3 , 0,1 , 1
+, ""\" ++ [233]%N ++ runes_of_ascii """ // " ++ [27880; 37322]%N ++ runes_of_ascii "
+,
+    """"
+    , 00
+    // c
+    ] // c
+: asx} , body `say ""hi""`// `tick` ""quote"" 'q'
+,	}options { x	='0'
+; u8x // " ++ [128512]%N ++ runes_of_ascii " emoji
+= u64;
+// c
+//	t
+string_ = ""a\""b"" }
+")).
+Eval vm_compute in ("<<<M4066>>>" ++ check (runes_of_ascii "  options
+{ 
+}
+
+    packet 
+        // packet A { u8 x, }
+packetx 
+{	crc
+
+    charz
+`` ,  leftPad
+
+    ,@tag( 3
+
+    )
+repeat uint64
+
+u128 
+`doc` 
+,
+    @tag( 
+007) 
+	    // c
+    // `tick` ""quote"" 'q'
+
+	Pad
+
+    roots /// triple
+, 
+@calculatedFrom( 	 // `tick` ""quote"" 'q'
+""CRC32""
+
+    )
+u8x	metadata ,
+    @tag(
+1
+)zchar[ 
+0123456789
+] i8i8 
+`a\`	, match	a1
+
+    as
+    As
+
+    {  ""a	b""
+: 
+roots ,[ ""\" ++ [233]%N ++ runes_of_ascii """ , ""abc"" 	 //
+	] : string_,
+}
+,
+
+    repeat 
+Header
+
+    {match 
+      // " ++ [128512]%N ++ runes_of_ascii " emoji
+
+	// c
+  f32a	as
+
+    _x { 
+4294967296
+:
+    // @lengthOf(
+	repeatCount  , 7 
+    //	t
+// @lengthOf(
+
+	:
+
+//x
+u8x ,
+
+    7 :
+    As  ,
+    } 	 // " ++ [128512]%N ++ runes_of_ascii " emoji
+,
+	i64 repeatCount
+@lengthOf(	a1
+    )
 
 ,
-@leftPad  
-  /// triple
-		( '\x00' ) repeat
-string
-uint8x	, @lengthOf(
-    T
-
-    )  zchar
-trueish
-, 
-@leftPad
-() int32  // a // b
-	  i8i8@lengthOf(
-u8x 
-
-// " ++ [27880; 37322]%N ++ runes_of_ascii "
-    	)  ,
-	    // c
+}
+    , 
+    // " ++ [128512]%N ++ runes_of_ascii " emoji
 	// " ++ [27880; 37322]%N ++ runes_of_ascii "
-    repeatCount @calculatedFrom( ""x y""
-), Logon
+	  }  packet pack  {
 
-    falsey ,
+    zchar[	// a // b
+  0
 
-    }options {
-    int
-=	""\n"" //	t
-    	len=
-	true;  _x
-
-    =
-    char
+    ]
+	stringy ,} /// triple
+  	root packet
 As
 
-    =	int16
+{  
+  // @lengthOf(
 
-    ;}packet
-Z9_  {	repeat
+match 	 // `tick` ""quote"" 'q'
+	u8x as packetx //	t
+      {
+7
 
-rootA ,@lengthOf(
-a1	)string_	trueish
-`" ++ [233]%N ++ runes_of_ascii "` ,
-    int8	Foo ,
-@tag(007
+: uint8x
+    65535
+    :
+int
+1 :T , ""{,}"" 
+:Foo
+
+,
+0123456789
+    // " ++ [128512]%N ++ runes_of_ascii " emoji
+  	// @lengthOf(
+	: Logon	,
+[ 65535 
+
+// " ++ [27880; 37322]%N ++ runes_of_ascii "
+	// `tick` ""quote"" 'q'
+      ]
+:len,
+
+}
+
+    ,
+repeat lengthOf 
+metadata , @calculatedFrom(	""" ++ [233]%N ++ runes_of_ascii "t" ++ [233]%N ++ runes_of_ascii """
 )
-    repeat  falsey
 
-`// not a comment` 	 /// triple
-  ,@tag(
-0 ) f64 x
-
-@calculatedFrom(
-
-    ""a\\"" 
-    // c
-
-  )
-`// not a comment` ,// `tick` ""quote"" 'q'
-    uint64 Header
-
-    ,
-    u8
-charz
-@calculatedFrom(  """ ++ [128512]%N ++ runes_of_ascii """) `" ++ [28040; 24687; 31867; 22411]%N ++ runes_of_ascii "`,
-
-i32 As
-@lengthOf(
-	a1
-
-) 
-`{ , }`
-,  @calculatedFrom(
-	""a	b""
-
-    )  uint16 x 
-, }
-")).
-Eval vm_compute in ("<<<M4333>>>" ++ check (runes_of_ascii "packet string_ 
-{
-A {	// trailing space 
-
-zchar[
-    1
-] // a // b
-	len
-,match
-
-leftPad  as
-metadata {  
-  // " ++ [27880; 37322]%N ++ runes_of_ascii "
-    [
-4294967296
-,  4294967296  ,  00
-
-,	1
-
-    ,
-    ""{,}"" 
-,007  /// triple
-  ,  7]
-
-    : chars 
-    /// triple
-,	0  : 
-i64_
-
-    , }
-,
-}
-    //	t
-	,  uint8
-    charz
-
-`" ++ [233]%N ++ runes_of_ascii "` 
-	    // trailing space 
-,  charz  msg_type ,
-
-    @rightPad (  ' ' )
-@calculatedFrom(""it's"" ) repeat
-    a1
-    `it's` 
-, //x
-
-	repeat Logon  { 
-int
-
-    o
-
-,
-	metadata
-, zchar[ 0  ]
-	msg_type@calculatedFrom("""" )
-	,
-pack
-    ,	}  , 
-@calculatedFrom(
-
-    ""it's""
-)	char[
-    00
-	]
-int
-`u8 x,`  ,
-i32 
-charz  `{ , }` ,	repeat
-	f64 As `" ++ [28040; 24687; 31867; 22411]%N ++ runes_of_ascii "`
-    /// triple
-// @lengthOf(
-	, } MetaData 	 //
-
-	metadata 
-{
-    string
-falsey  , } packet
-
-    o
-	{float64 roots
-
-@lengthOf(	body
-), 
-	    //
-
-}")).
-Eval vm_compute in ("<<<M220>>>" ++ check (runes_of_ascii "
-MetaData BodyLength
-{  int32 chars
-    `u8 x,` , char[
-0123456789 ] // c
-matchKey `a\` ,
-char[]
-    //
-    A , } packet//x
-u128
-    {}
-packet rootA
-{float64// c
-roots ,  @lengthOf(
-    float// `tick` ""quote"" 'q'
-)//	t
-repeat BodyLength { BodyLength{
     repeat
-f64 Packet, char[ 7
-/// triple
-//	t
-] As `doc` ,
-}
-    ,
-} , calculatedFrom
-{i16  o@lengthOf(
-    Logon ) `doc`, Foo u128 ,	char// @lengthOf(
-u @lengthOf(  _x
-) ,  },@tag( 1  )@rightPad // `tick` ""quote"" 'q'
-(' '
-) char[]msg_type
-// trailing space 
-// trailing space 
-, } packet
-calculatedFrom
-{
-    char[] rootA@calculatedFrom( ""a	b"" ) ,
-}	options
-//	t
-// packet A { u8 x, }
-{
-    o =
-""// no comment"" matchKey
-    = '\x00' ;
-    u
-    = """"
-leftPad = ""CRC32""; A= ""CRC32"" ; } // trailing space ")).
-Eval vm_compute in ("<<<M826>>>" ++ check (runes_of_ascii "packet As {// " ++ [27880; 37322]%N ++ runes_of_ascii "
-@leftPad	( '0'
-    /// triple
-    ) @lengthOf( i64_ )
-// @lengthOf(
-/// triple
-@leftPad (
-    '\x00' )
-    calculatedFrom  f32a,
-match x	as x_y_z { """"
-    // c
-    : body ,
-007
+
+    zchar[ 65535]
+As 
+`doc`
+
+    ,char[ 	 // trailing space 
+    7 ]
+
+    float	// @lengthOf(
+    @calculatedFrom(
+    //
+
+"""")
+	,
+float32
+
+a1`it's` 
+, @tag(
+3)  char[]
+BodyLength// @lengthOf(
+`line1
+line2`,
+    match int
+as
+
+asx
+	{
+	[""" ++ [28040; 24687]%N ++ runes_of_ascii """ ,0  ] : x_y_z
+,
+
+    1 :
+
+    Packet, ""{,}""	: falsey ,	255:charz,
+	[
+
+    ""{,}"",
+0123456789]
 :
-o
-,
-    [	""{,}"" ] :As, ""\n"" : stringy ,4294967296 : roots ,	}
-,	calculatedFrom ,
+
+    uint8x
+
+,}	, crc
+@calculatedFrom( 
+""\" ++ [233]%N ++ runes_of_ascii """ 
+	// " ++ [128512]%N ++ runes_of_ascii " emoji
+		)`crlf
+line` , 
 match
-Pad as asx
-    { [ """ ++ [28040; 24687]%N ++ runes_of_ascii """ , ""1"" ,""a	b"" ,  3 ,""x y""
-,00
-    ,
-10 , ""\" ++ [233]%N ++ runes_of_ascii """ ] :Pad 65535 :x 7
-:x_y_z 3 : charz,""" ++ [233]%N ++ runes_of_ascii "t" ++ [233]%N ++ runes_of_ascii """
-:lengthOf
-} , @calculatedFrom(
-    ""{,}"" )
-@calculatedFrom( ""CRC32"" ) @calculatedFrom(""a	b"" )
-/// triple
-// trailing space 
-crc As /// triple
-,calculatedFrom{
-char[]	x
-    ``
-    , } , @rightPad// `tick` ""quote"" 'q'
-(
-    '\x00' )
-repeat char[]
-    asx /// triple
-`tab	here` ,f32a
-{ repeat char u
-,} // `tick` ""quote"" 'q'
-,
-}")).
-Eval vm_compute in ("<<<M3723>>>" ++ check (runes_of_ascii "root packet As {
-    repeat x msg_type,
-}
+	packetx
+as
+Pad 
+{""packet"" 
+: //
+	  BodyLength
 
-MetaData crc {
-    u8 x,
-}
+    ,  } ,	@lengthOf(  BodyLength) @tag( 
+    // packet A { u8 x, }
+  	//x
+    00
 
-root packet Logon {
-    @calculatedFrom(""1"")
-    @rightPad(' ')
-    @leftPad()
-    string msg_type @lengthOf(uint8x) `a\`,
-    match calculatedFrom as i8i8 {
-        [""\" ++ [233]%N ++ runes_of_ascii """] : options1,
-        // c
-        1 : asx,
-        [42, 42, 7, """ ++ [28040; 24687]%N ++ runes_of_ascii """, """"] : x_y_z,
-        [0] : asx,
-        //
-        7 : u8x,
-        [7] : u,
-    },
-}
+) @lengthOf( As)
 
-MetaData repeatCount {
-    float Foo,
-    As i8i8,
-}
+    match
 
-packet tag {
-    @leftPad(' ')
-    match Z9_ as msg_type {
-        //
-        [
-            10, 0, 255, 7, 0123456789,
-            10, ""a\""b""
-        ] : Logon,
-        """ ++ [233]%N ++ runes_of_ascii "t" ++ [233]%N ++ runes_of_ascii """ : a1,
-        7 : i64_,
-        255 : leftPad,
-    },
-}")).
-Eval vm_compute in ("<<<M4039>>>" ++ check (runes_of_ascii "
-options
+charz
+	as 
+len
 
     {
-int
 
-=
+[//x
+""x y""  ]: _x  //x
+""it's""
+:
 
-""`tick`"" ;
-Foo =
-' '
-    ;Foo
-=""x y""
-;x_y_z =
-    ""x y"" 
-    //	t
-    ; }packet 
-uint8x{
-@lengthOf( 
-int 
+i64_  ,0123456789 :	metadata 
+// packet A { u8 x, }
+  	//x
+  """ ++ [128512]%N ++ runes_of_ascii """
+	:
+trueish
 
+, 1  : Logon	,
+	}
+,
+
+    }	//	t
+ 
+")).
+Eval vm_compute in ("<<<M1280>>>" ++ check (runes_of_ascii "options
+    {metadata
+    /// triple
+    =string ; }packet
+Header{@leftPad ( ' '
+)string//	t
+i8i8 `it's`
 // `tick` ""quote"" 'q'
-	// trailing space 
-
-	) 
-@tag(
-	0
-)Pad // `tick` ""quote"" 'q'
-  ,
-    u8
-    x
+// `tick` ""quote"" 'q'
 ,
-
-    @lengthOf(
-
-Z9_ ) f32 
-BodyLength`crlf
-line`  , repeat
-    char[
-255 
-]f32a
-
-    ,repeat 
-msg_type
-
-lengthOf 
+@lengthOf(// " ++ [27880; 37322]%N ++ runes_of_ascii "
+roots )	u
+@calculatedFrom( """ ++ [128512]%N ++ runes_of_ascii """ )
+, @tag(65535 // packet A { u8 x, }
+) match
+Pad as
+stringy// `tick` ""quote"" 'q'
+{3
+: f32a
+    ,""a\\""
+: i8i8
 ,
-
-    @leftPad('\x00' ) repeat int32 asx
-,repeat
-    string
-f32a  //x
-  ,// `tick` ""quote"" 'q'
-	} MetaData  packetx {
-int64	asx  ,
-Foo	len 
-`// not a comment`,
-
-i32 MetaDataX
-
-`" ++ [233]%N ++ runes_of_ascii "`
-
-    ,
-Foo
-    Header `line1
-line2` ,	zchar[ 0123456789]lengthOf
-, float32 
+    [
+    """ ++ [128512]%N ++ runes_of_ascii """ ,
+7] :
+rootA , // " ++ [128512]%N ++ runes_of_ascii " emoji
+""a\""b"" : x_y_z
+,
+[ 0123456789 ,""a	b""  ]: Logon
+,
+} ,metadata {  char[] // `tick` ""quote"" 'q'
+chars @calculatedFrom(
+    """ ++ [128512]%N ++ runes_of_ascii """
+)`two words` , repeat asx	{ msg_type { int64 _x `
+`
+    ,repeat Z9_
+/// triple
+// `tick` ""quote"" 'q'
+,
+uint16 leftPad `line1
+line2`,
+    trueish x_y_z ``, } , // trailing space 
+zchar[ 4294967296// " ++ [27880; 37322]%N ++ runes_of_ascii "
+]
+chars `crlf
+line`, Logon `a\` ,
+} ,  char[]body ,
+    } ,  repeat u { int {
+repeat
+    zchar{
+f64
+lengthOf @calculatedFrom(	""abc""  ) `" ++ [233]%N ++ runes_of_ascii "` ,/// triple
+}
+, As @calculatedFrom(
+    ""{,}"" )
+    // packet A { u8 x, }
+    , repeat  char[] // `tick` ""quote"" 'q'
 metadata
-
+, string// a // b
+calculatedFrom `two words` , }	, },
+    @rightPad
+( '0'
+)// " ++ [27880; 37322]%N ++ runes_of_ascii "
+@rightPad(
+    '0'  )
+@lengthOf( x )repeat leftPad `// not a comment`
+    ,
+@rightPad ( ' '
+)o  Z9_
 , }
-
-")).
-Eval vm_compute in ("<<<M3657>>>" ++ check (runes_of_ascii "// top
-packet // c0
-Sub // c1a
-  // c1b
-{
-    // c2
-u8 // c3a
-  // c3b
-a // c4
-,
-    // c5
-@calculatedFrom( // c6a
-  // c6b
-""CRC16"" // c7
-) // c8a
-  // c8b
-u16 // c9
-SubSum , } // c12a
-  // c12b
-root
-    // c13
-packet // c14a
-  // c14b
-Frame // c15a
-  // c15b
-{ // c16a
-  // c16b
-u16
-    // c17
-MsgType
-    // c18
-, u16 // c20a
-  // c20b
-BodyLen
-    // c21
-@lengthOf( Body // c23a
-  // c23b
+packet
+    Pad
+    {metadata trueish
+// c
+// " ++ [128512]%N ++ runes_of_ascii " emoji
+`u8 x,` ,
+    } options{ len
+// a // b
+// @lengthOf(
+=i64 f32a =  ""x y""; matchKey = ""packet"" ;  } packet lengthOf
+{char[ 7]
+// trailing space 
+/// triple
+MetaDataX
+@lengthOf(BodyLength
 )
-    // c24
-, Sub Body
-    // c27
-, // c28
-string // c29
-note
-    // c30
-, @calculatedFrom( // c32a
-  // c32b
-""CRC16"" )
-    // c34
-u16 Checksum // c36
-, // c37
-u8
-    // c38
-tail // c39a
-  // c39b
+,int8 As @lengthOf( calculatedFrom  ) ``,repeat char[]
+// a // b
+// @lengthOf(
+As ,
+    body @calculatedFrom( /// triple
+""abc"" ) ,
+    repeat float64 MetaDataX `" ++ [28040; 24687; 31867; 22411]%N ++ runes_of_ascii "` // " ++ [27880; 37322]%N ++ runes_of_ascii "
 ,
-    // c40
-} // c41
+@tag(
+    4294967296 )	match u8x as crc
+{[
+""\n"" ,
+65535 ] : // packet A { u8 x, }
+_x , 255 : roots,} ,  } //	t")).
+Eval vm_compute in ("<<<M903>>>" ++ check (runes_of_ascii "// a // b
+packet //x
+leftPad{
+repeat// " ++ [27880; 37322]%N ++ runes_of_ascii "
+crc , repeat f32a{ roots i8i8 ,// trailing space 
+string_ msg_type ,
+    u128 {  match
+u as  o {
+""1"" : u8x ,  7: string_
+,""" ++ [233]%N ++ runes_of_ascii "t" ++ [233]%N ++ runes_of_ascii """ :trueish ,
+}, u16
+trueish
+    @lengthOf(_x)`a\` , }, u128{ x_y_z ,
+    Packet @lengthOf( /// triple
+rootA ) `{ , }` , } , }
+/// triple
+/// triple
+, @calculatedFrom( // `tick` ""quote"" 'q'
+""CRC32"" ) rootA@calculatedFrom(""\" ++ [233]%N ++ runes_of_ascii """ )
+    //
+    `tab	here`
+,
+// " ++ [128512]%N ++ runes_of_ascii " emoji
+// " ++ [27880; 37322]%N ++ runes_of_ascii "
+match A as
+    a1 { 7:
+u128 ,[
+""// no comment"" // " ++ [27880; 37322]%N ++ runes_of_ascii "
+]
+    :  stringy """" :
+    i8i8 , 65535 : msg_type
+[7 ,""a\""b""
+,
+    65535  ,255 ,4294967296] : packetx// " ++ [27880; 37322]%N ++ runes_of_ascii "
+,
+    }, }	packet
+//x
+//
+a1
+    { uint16 tag,
+// " ++ [27880; 37322]%N ++ runes_of_ascii "
+// trailing space 
+Packet `a\` , }packet tag { } packet  msg_type
+{ options1
+    int `u8 x,` ,i64 calculatedFrom  , match rootA as
+pack	{ 0 : i64_ //	t
+,[""abc""
+    , 42, 42
+, 7 ] :
+zchar
+7
+:u8x , ""{,}"" //	t
+: len ,
+    } ,match packetx as i8i8 { 65535
+    : Foo """ ++ [28040; 24687]%N ++ runes_of_ascii """:
+repeatCount
+, }
+    , // a // b
+@rightPad // `tick` ""quote"" 'q'
+(
+' '
+) string Packet
+@lengthOf( _x
+) ,
+matchKey { // " ++ [27880; 37322]%N ++ runes_of_ascii "
+zchar
+    { f64
+    // `tick` ""quote"" 'q'
+    falsey
+//
+// " ++ [27880; 37322]%N ++ runes_of_ascii "
+`a\` , uint64 x_y_z `a\` , }
+    , } ,//x
+@rightPad
+// c
+// trailing space 
+(
+'0' )repeat
+    leftPad { uint32 stringy
+    // a // b
+    @calculatedFrom(
+"""")
+// a // b
+/// triple
+,
+zchar[
+    0123456789
+    ] MetaDataX`tab	here` //	t
+, char len`line1
+line2` , } , }root// @lengthOf(
+packet Header
+    // @lengthOf(
+    {}
 ")).
-Eval vm_compute in ("<<<M4088>>>" ++ check (runes_of_ascii "
+Eval vm_compute in ("<<<M1390>>>" ++ check (runes_of_ascii "options {
+	StringPrefixLenType = u16;
+	ArrayPrefixLenType = u16;
+}
 
-  options {  tag=
+packet SampleBinary {
+    uint16 MsgType `" ++ [28040; 24687; 31867; 22411]%N ++ runes_of_ascii "`,
+    u16 BodyLenght @lengthOf(Body) `" ++ [28040; 24687; 20307; 38271; 24230]%N ++ runes_of_ascii "`,
+    match MsgType as Body {
+        1 : Logon,
+        2 : Logout,
+        3 : Heartbeat,
+        4 : RiskControlRequest,
+        5 : RiskControlResponse,
+    },
+        @calculatedFrom(""CRC32"")
+    u32 Ckecksum `" ++ [26657; 39564; 21644]%N ++ runes_of_ascii "`,
+}
+
+packet Logon {
+     @leftPad('0')
+    char[10] UserName `" ++ [29992; 25143; 21517]%N ++ runes_of_ascii "`,
+    string Password `" ++ [23494; 30721]%N ++ runes_of_ascii "`,
+    uint64 ClientId `" ++ [23458; 25143; 31471]%N ++ runes_of_ascii "ID`,
+    u16 HeartbeatInterval `" ++ [24515; 36339; 38388; 38548]%N ++ runes_of_ascii "`,
+}
+
+packet Logout {
+      @rightPad('0')
+    char[10] UserName `" ++ [29992; 25143; 21517]%N ++ runes_of_ascii "`,
+    uint64 ClientId `" ++ [23458; 25143; 31471]%N ++ runes_of_ascii "ID`,
+}
+
+packet Heartbeat {
+}
+
+packet RiskControlRequest {
+    string UniqueOrderId `" ++ [21807; 19968; 35746; 21333; 21495]%N ++ runes_of_ascii "`,
+    char[16] ClOrdID `" ++ [23458; 25143; 35746; 21333; 21495]%N ++ runes_of_ascii "`,
+    char[3] MarketID `" ++ [24066; 22330]%N ++ runes_of_ascii "id`,
+    char[12] SecurityID `" ++ [35777; 21048; 20195; 30721]%N ++ runes_of_ascii "`,
+    char Side `" ++ [20080; 21334; 26041; 21521]%N ++ runes_of_ascii "`,
+    char OrderType `" ++ [35746; 21333; 31867; 22411]%N ++ runes_of_ascii "`,
+    u64 Price `" ++ [20215; 26684]%N ++ runes_of_ascii "`,
+    u32 Qty `" ++ [25968; 37327]%N ++ runes_of_ascii "`,
+    repeat string ExtraInfo `" ++ [38468; 21152; 20449; 24687]%N ++ runes_of_ascii "`,
+    repeat SubOrder {
+    		char[16] ClOrdID `" ++ [23376; 35746; 21333; 21495]%N ++ runes_of_ascii "`,
+    		u64 Price `" ++ [23376; 35746; 21333; 20215; 26684]%N ++ runes_of_ascii "`,
+    		u32 Qty `" ++ [23376; 35746; 21333; 25968; 37327]%N ++ runes_of_ascii "`,
+    	},
+}
+
+packet RiskControlResponse {
+    string UniqueOrderId `" ++ [21807; 19968; 35746; 21333; 21495]%N ++ runes_of_ascii "`,
+    i32 Status `" ++ [29366; 24577]%N ++ runes_of_ascii "`,
+    string Msg `" ++ [32467; 26524; 20449; 24687]%N ++ runes_of_ascii "`,
+    repeat Detail,
+}
+
+packet Detail {
+    string RuleName `" ++ [35268; 21017; 21517; 31216]%N ++ runes_of_ascii "`,
+    u16 Code `" ++ [21407; 22240; 20195; 30721]%N ++ runes_of_ascii "`,
+}")).
+Eval vm_compute in ("<<<M4219>>>" ++ check (runes_of_ascii "
+packet  x {
+
+    @tag( 
+
+//x
+
+  // a // b
+    3 )  @calculatedFrom(// `tick` ""quote"" 'q'
+    	""1""	) 
+@calculatedFrom( 	 // packet A { u8 x, }
+
+""{,}""
+    )o uint8x ,
+
+    repeat zchar[ 
+4294967296
+// " ++ [128512]%N ++ runes_of_ascii " emoji
+
+]Packet
+    ,
+repeat
+    trueish
+	{
+uint16	a1, 
+char[]
+matchKey	,
+float {uint64	A
+@calculatedFrom(
+
+    ""`tick`""
+// c
+  //x
+  ) , }
+,
+int32
+
+    tag
+
+,
+}
+	, @leftPad (
+    )	Foo
+
+{  leftPad	@calculatedFrom(
+	""{,}""
+	) ,//x
+		},
+@lengthOf(
+Z9_ )
+    uint64 pack 
+,
+}
+options
+	{ roots
+=
+	65535 ;
+	falsey =
+	10
+    ;	//x
+	x_y_z=
+' ' ;
+
+    MetaDataX = // `tick` ""quote"" 'q'
+false
+
+; }options
+
+    {
+	crc  = 
+true ; string_=
 
 false;
-}  root packet MetaDataX {
-    repeat a1{  // packet A { u8 x, }
-		match options1
-    as
-_x {
-    [
-""1"" ]	:  
-      //	t
-		leftPad,
-    """":	Z9_	, 
-""a	b"": leftPad
-    , 
-    /// triple
-// " ++ [128512]%N ++ runes_of_ascii " emoji
-	} ,
+	leftPad
+	= ' '
+;i8i8 = 
+    // c
+    '0' ; } root
+	packet
+    string_
 
-}  ,
-	o ,	// @lengthOf(
-  @lengthOf(
-
-x  )
-calculatedFrom
-
-    {	repeat charz ,char[ 0123456789 
-] Pad	,} ,
-    }	// a // b
-MetaData roots
-    {}packet
-	    // `tick` ""quote"" 'q'
-//	t
-
-  T 
-{  match	metadata  // " ++ [128512]%N ++ runes_of_ascii " emoji
-as BodyLength 
 {
 
-0
-	:
-    Packet
+    u16
 
-    ,""" ++ [233]%N ++ runes_of_ascii "t" ++ [233]%N ++ runes_of_ascii """ : f32a	,	//x
+// trailing space 
+    rootA
 
-	""// no comment""
-	:
-float  ,
+    @lengthOf( lengthOf	) `" ++ [233]%N ++ runes_of_ascii "` ,
 
-    // packet A { u8 x, }
+@lengthOf(
 
-	//	t
+chars 
+)@lengthOf( stringy
 
+) @lengthOf(
+falsey ) string
+Header  @calculatedFrom(""1"")
+    ,
+@calculatedFrom( ""a\""b""	)
+	@calculatedFrom(
+
+    ""`tick`"" ) @tag( 65535 ) uint8
+    //
+
+// " ++ [27880; 37322]%N ++ runes_of_ascii "
+f32a
+,
+
+@leftPad
+
+    () zchar[
+    42 // trailing space 
+	] a1@calculatedFrom(
+	""""	// " ++ [128512]%N ++ runes_of_ascii " emoji
+  ) ,
+        // a // b
+	// a // b
   }
 
-,} ")).
-Eval vm_compute in ("<<<M336>>>" ++ check (runes_of_ascii "root
-packet  lengthOf { @lengthOf(
-    i64_ ) string repeatCount
-    @calculatedFrom( """ ++ [28040; 24687]%N ++ runes_of_ascii """
+    options
+	{len=
+	7
+	;
+} ")).
+Eval vm_compute in ("<<<M1170>>>" ++ check (runes_of_ascii "
+MetaData T
+{ leftPad msg_type, float Foo `doc`
+,
+uint64 charz `two words` ,
+    crc Pad `" ++ [28040; 24687; 31867; 22411]%N ++ runes_of_ascii "` ,  } root packet zchar
+{
+    @tag(  0123456789
 )
-    `doc` ,repeat
-char[]	f32a `two words` //x
-, @lengthOf( //x
-i64_) char[]a1 ,//
-match float as	BodyLength	{
-"""" // " ++ [27880; 37322]%N ++ runes_of_ascii "
-:tag , """ ++ [28040; 24687]%N ++ runes_of_ascii """ : roots
-, ""// no comment""
-    :
-A ,
-} , metadata , repeat // `tick` ""quote"" 'q'
-char[
-0123456789 ]
-a1 `a\`, @leftPad (
-    '\x00'
-    )
-    zchar lengthOf ,
-    repeat
+    zchar[
+    42  ]
+lengthOf `" ++ [233]%N ++ runes_of_ascii "`
+    ,
+@tag(  0123456789)
+i64_
+i8i8	`say ""hi""`
+, Header
+    , @lengthOf(i64_
+)uint16 T
+// " ++ [128512]%N ++ runes_of_ascii " emoji
+// c
+@calculatedFrom(
+    ""x y"" ) , @lengthOf(/// triple
+u)
     // a // b
-    char[] calculatedFrom
-    // @lengthOf(
-    , @rightPad( '\x00' ) @rightPad (
-    '\x00' // " ++ [27880; 37322]%N ++ runes_of_ascii "
-)
-    i8
-    BodyLength ,	}
-options{ } options { }
-")).
-Eval vm_compute in ("<<<M316>>>" ++ check (runes_of_ascii "options { falsey
-// " ++ [128512]%N ++ runes_of_ascii " emoji
-// " ++ [27880; 37322]%N ++ runes_of_ascii "
-= ""abc""; roots = // c
-'0'	;MetaDataX
-=
-// " ++ [128512]%N ++ runes_of_ascii " emoji
-// " ++ [128512]%N ++ runes_of_ascii " emoji
-'0' ; //
-crc= // " ++ [128512]%N ++ runes_of_ascii " emoji
-42 // a // b
-x	= '0'
-; } packet A {  repeat uint64 u128 , @tag(
-65535) int16
+    As {int64 // `tick` ""quote"" 'q'
 options1
-    `line1
-line2` , } options { // packet A { u8 x, }
-int
-=
-""// no comment""msg_type  = zchar[ 0123456789
-    /// triple
-    ] ; calculatedFrom =// @lengthOf(
-u8	;
-    asx=
-""" ++ [28040; 24687]%N ++ runes_of_ascii """ ; body = 10 } options { charz = true	metadata = char[]
-; Packet// c
-=  true}
-packet Logon
-{
-@calculatedFrom( """ ++ [128512]%N ++ runes_of_ascii """ )
-    repeat packetx rootA,}
-
-")).
-Eval vm_compute in ("<<<M4563>>>" ++ check (runes_of_ascii "
-// top
-    packet 
-    // c0
-	float
-        // c1
-    { 
-	    // c2
-
-  repeat
-    // c3
-  i8i8 
-    // c4
-	MetaDataX 
-// c5
-  `it's`
-
-    // c6
-  ,
-	// c7
-rootA
-        // c8
-  ,
-	    // c9
-  	repeat
-	    // c10
-  int8  
-  // c11
-
-	int 
-    // c12
-	, 
-	// c13
-
-  match  
-      // c14
-    repeatCount  
-      // c15
-	as
-    // c16
-  x_y_z
-        // c17
-
-{
-
-// c18
-  ""{,}""
-	// c19
-    	: 
-      // c20
-  Logon  
-      // c21
-  	,
-        // c22
-      }
-	    // c23
-  ,  
-  // c24
-    }
-// c25
-")).
-Eval vm_compute in ("<<<M472>>>" ++ check (runes_of_ascii "MetaData a1{ f64
-    int
-    , i32
-o	`two words` ,
-char[3	] lengthOf
-    , zchar[ 7
-] Header , u32 x_y_z , char[3 ] matchKey
-    ,
-    }packet falsey{@lengthOf(
-    i8i8 ) match MetaDataX	as calculatedFrom  { 00
+@lengthOf( leftPad
+) `u8 x,` ,char[1	]
+falsey @lengthOf( Pad ) `u8 x,`
+    ,  char[]
+charz
+@lengthOf( Packet // c
+), repeat
+//x
+// " ++ [128512]%N ++ runes_of_ascii " emoji
+zchar { zchar[00
+    ]chars ,
+    msg_type @lengthOf(u128  )
+, } // " ++ [27880; 37322]%N ++ runes_of_ascii "
+,} , @leftPad ( '\x00' ) Foo @lengthOf(
+    Logon)
+, @lengthOf(Packet
+) repeat int {
+// @lengthOf(
+// trailing space 
+repeat char zchar , repeat
+string	stringy , string
+matchKey @calculatedFrom(""a	b"" ) `u8 x,`, }, match Logon as calculatedFrom { [ 42 ]
 :
-float  , // " ++ [27880; 37322]%N ++ runes_of_ascii "
-7 // " ++ [128512]%N ++ runes_of_ascii " emoji
-: MetaDataX
-,""" ++ [28040; 24687]%N ++ runes_of_ascii """ :
-    options1 , [ ""a\\"" // packet A { u8 x, }
-]: charz	,
-},match T
-    // trailing space 
-    as Z9_ { [
-    ""it's"" ] : falsey //
-,
-255	:Foo , ""a\\""
-    : Header , }, }
+    x
+,""`tick`""
+:
+    x, 65535
+: Packet , },
+    char[ 7 ]trueish ``,
+match roots
+as
+    float { 007	: u8x// packet A { u8 x, }
+""\" ++ [233]%N ++ runes_of_ascii """ :MetaDataX // " ++ [27880; 37322]%N ++ runes_of_ascii "
+, //x
+[ 255 , ""{,}"",
+    """" , 255 ]// c
+:
+x_y_z , ""// no comment"" : Header // " ++ [27880; 37322]%N ++ runes_of_ascii "
+,} // " ++ [128512]%N ++ runes_of_ascii " emoji
+, }")).
+Eval vm_compute in ("<<<M125>>>" ++ check (runes_of_ascii "options {
+// a // b
+// trailing space 
+Pad
+    =
+// " ++ [128512]%N ++ runes_of_ascii " emoji
+// " ++ [128512]%N ++ runes_of_ascii " emoji
+false Logon = uint32 ; // " ++ [128512]%N ++ runes_of_ascii " emoji
+x_y_z =
+    1 }
     MetaData
-    lengthOf { As rootA `doc` , }
-")).
-Eval vm_compute in ("<<<M3207>>>" ++ check (runes_of_ascii "// top
-options
-    // c0
-{ charz // c2
-= // c3a
-  // c3b
-f64 // c4a
-  // c4b
-; // c5a
-  // c5b
-metadata = // c7
-7 // c8a
-  // c8b
-; // c9a
-  // c9b
-} // c10
-options
-    // c11
-{
-    // c12
-u128 // c13
-=
-    // c14
-10 // c15
-options1 // c16
-= // c17
-true
-    // c18
-; zchar // c20
-=
-    // c21
-uint16
-    // c22
-; lengthOf
-    // c24
-=
-    // c25
-true
-    // c26
-;
-    // c27
-} // c28a
-  // c28b
-options // c29
-{
-    // c30
-len = // c32
-1
-    // c33
-}
-    // c34
-")).
-Eval vm_compute in ("<<<M3780>>>" ++ check (runes_of_ascii "MetaData u {
-    int8 body,
-    string Packet,
-}
-
-options {
-    matchKey = float64;
-}
-
-packet roots {
-    @calculatedFrom(""abc"")
-    match MetaDataX as _x {
-        007 : o,
-        [
-            42, 65535, 1, 65535, 4294967296,
-            00, ""x y"", ""a	b""
-        ] : f32a,
-        ""CRC32"" : repeatCount,
-        ""CRC32"" : u128,
-    },
-}
-
-options {
-}
-
-MetaData uint8x {
-    char[] u128,
-    body crc `
-    `,
-    lengthOf rootA,
-    i8 crc,
-}")).
-Eval vm_compute in ("<<<M1090>>>" ++ check (runes_of_ascii "root packet MetaDataX
-{@leftPad ( '\x00' ) i8i8 @lengthOf( charz
-) ,repeat
-u8x `crlf
-line` ,
-    zchar
-    `line1
-line2`
-, @lengthOf( stringy
-    )repeat
-char[ 00] // trailing space 
-packetx , }
-    /// triple
-    root packet
-charz { match
-    repeatCount
-    as
-float {
-    //	t
-    0123456789
-    // a // b
-    : Packet ,	}
-    , string
+// `tick` ""quote"" 'q'
+//	t
+_x
+    {
+    uint32
+stringy ,
+zchar[ 42
+    ] A,
+} packet A {
+    match As as string_/// triple
+{ 0 :
+/// triple
+// `tick` ""quote"" 'q'
+Z9_ ,}
+,  @lengthOf(
+    Z9_ )@lengthOf( x_y_z )As
+    @lengthOf( As )
+`doc` ,
+u64 calculatedFrom	@calculatedFrom(
+""abc"")
+`// not a comment` , // c
+Packet //	t
+string_ ,
     // trailing space 
-    x_y_z	@calculatedFrom(
-    ""\n"" )
+    @lengthOf(  Z9_
+    ) Z9_ @lengthOf( body)// trailing space 
 ,
-    }  options
-{ }")).
-Eval vm_compute in ("<<<M4572>>>" ++ check (runes_of_ascii "
-// " ++ [128512]%N ++ runes_of_ascii " emoji
-    	packet
-
-i64_  { match
-repeatCount as u8x {	// packet A { u8 x, }
-7 :
-crc,
-} , 
-repeat  uint32
-roots
-,
-}	packet
-	options1{ match 
-MetaDataX
-    as
-    chars {
-""CRC32"":  tag
-, 00
-:lengthOf 	 // a // b
-	  , """ ++ [233]%N ++ runes_of_ascii "t" ++ [233]%N ++ runes_of_ascii """ :_x , } ,
-uint16
-
-trueish ,
-    char[	10
-    ]
 calculatedFrom
-    ,
-
-    @calculatedFrom(  ""a\\""	) @tag(65535)	@rightPad ( '\x00'  )
-
-    repeat
-	int32
-    len  , }
-")).
-Eval vm_compute in ("<<<M574>>>" ++ check (runes_of_ascii "packet trueish { @tag( 65535	) //
-char[  7] rootA // " ++ [128512]%N ++ runes_of_ascii " emoji
-`{ , }`,repeat _x// @lengthOf(
-{ _x	T ,
-    },lengthOf @lengthOf( crc	) ,  metadata trueish `tab	here`,	@rightPad
-()	u16 packetx
-`u8 x,` , repeat
-leftPad
-,  @lengthOf( u8x
-) repeat
-int32 MetaDataX `a\` , //	t
-@tag(42  )
-    repeat
-lengthOf, @lengthOf( x )@calculatedFrom(""1""
-) zchar[ 65535
-    ] lengthOf`u8 x,` ,
-    }")).
-Eval vm_compute in ("<<<M3546>>>" ++ check (runes_of_ascii "// top
-packet
-    // c0
-B
-    // c1
-{ // c2
-u8 // c3
-a // c4
-, } // c6
-root packet
-    // c8
-P {
-    // c10
-u8 K , // c13a
-  // c13b
-u64
-    // c14
-L // c15a
-  // c15b
-@lengthOf(
-    // c16
-Body // c17
-)
-    // c18
-, match // c20a
-  // c20b
-K // c21a
-  // c21b
-as // c22a
-  // c22b
-Body
-    // c23
-{ 1 : // c26a
-  // c26b
-B , // c28a
-  // c28b
-} , // c30
+BodyLength , @lengthOf( msg_type
+)repeat
+char tag `it's` ,
 }
-    // c31
-")).
-Eval vm_compute in ("<<<M3964>>>" ++ check (runes_of_ascii "
+    packet zchar { @leftPad (
+//x
 //
-	root 
-packet 
-Foo	{
-    char[]  //
-leftPad 	 // trailing space 
-  ,	}
-options
-{
-
+)
+    repeat zchar[ 3 ]Z9_
+, } // `tick` ""quote"" 'q'
+packet chars { @lengthOf( Z9_ ) repeat string crc , string MetaDataX ,@calculatedFrom( """"
+    )
+x
+    ,
+u8x//
+, @tag(10 ) match
+    falsey as	tag {""CRC32""	: x
+    , /// triple
+} //	t
+,
+x_y_z`tab	here`
+,
+@rightPad(
+'0'
+)int16
+Logon
+    ,trueish
+, @rightPad
+( )
+_x @calculatedFrom(
+""packet""// c
+), } // @lengthOf(")).
+Eval vm_compute in ("<<<M4512>>>" ++ check (runes_of_ascii "options {
+    chars = ' '
 }
-root
-packet
 
-    i64_
+root packet string_ {
+    i8i8 @lengthOf(Z9_),
+    match int as chars {
+        007 : body,
+        [42] : int,
+        ""`tick`"" : options1,
+    },
+    @leftPad(' ')
+    uint16 crc `it's`,// a // b
+    float64 packetx @lengthOf(crc),
+    @tag(4294967296)
+    match int as chars {
+        4294967296 : Foo,
+        1 : asx,
+        10 : Pad,
+        0123456789 : string_,
+        3 : T,
+        ""it's"" : As,
+    },
+    repeat float falsey `say ""hi""`,
+    match uint8x as zchar {
+        ""// no comment"" : body,
+        0123456789 : crc,
+        ""{,}"" : o,
+    },
+    repeat o chars,
+    uint32 As `doc`,
+    repeat trueish {
+        char[7] i64_ `{ , }`,
+    },
+}
 
-    {
-
-    @lengthOf(
-	x_y_z	)	@calculatedFrom(
-""abc""
-)@lengthOf( 
-leftPad
-	) repeat
-    body zchar
-
-    `it's` ,
-char[]  metadata 
-@lengthOf(  MetaDataX 
-	//	t
-
-  /// triple
-)`doc`
-,repeat	Foo 
-Header	,	/// triple
-    	}
-")).
-Eval vm_compute in ("<<<M1131>>>" ++ check (runes_of_ascii "packet
-int // a // b
-{  match pack as charz {10  :// a // b
-i8i8,// @lengthOf(
-10 : MetaDataX , [ 42 ]:options1 , } , repeat uint16 zchar , char[007
-    ] asx ,
-@lengthOf(// " ++ [27880; 37322]%N ++ runes_of_ascii "
-As
-)  @calculatedFrom( ""1"" )
-    lengthOf  @lengthOf(
-BodyLength
-    )`tab	here`
-,char[]T `// not a comment` ,// packet A { u8 x, }
-@leftPad(
-) packetx , }")).
-Eval vm_compute in ("<<<M586>>>" ++ check (runes_of_ascii "options{	i8i8 = 65535
-; asx/// triple
-=
-float64 charz	= ""`tick`"" As//
-=
-    7 ;
-    i8i8 = ""\n"" }
-// `tick` ""quote"" 'q'
-// " ++ [27880; 37322]%N ++ runes_of_ascii "
-packet u{ } options	{
+packet Packet {
+    zchar[0123456789] matchKey @lengthOf(chars),
+    x {
+        u64 o,
+    },
+    zchar[1] MetaDataX @calculatedFrom(""""),
+    char[] lengthOf @calculatedFrom(""a\""b"") `
+        `,
+    @rightPad(' ')
+    //	t
+    uint16 len `a\`,
+    @lengthOf(tag)
+    char[65535] pack ``,
+}")).
+Eval vm_compute in ("<<<M573>>>" ++ check (runes_of_ascii "packet metadata{zchar[ 255] rootA@lengthOf( //	t
+stringy ) `` , Z9_
+@calculatedFrom(""\n"" ) ,i64_ , @calculatedFrom( ""abc"" )body `crlf
+line`
+    , // packet A { u8 x, }
+match metadata as
+leftPad { ""\n""
+    : stringy , ""it's"":
+rootA , [
+""packet"", 10 ]: lengthOf , 1  : zchar ,
+} , @tag( 3 )//x
+char[] x_y_z `u8 x,` , f64
+    o @lengthOf(o ) ,
+@calculatedFrom( // c
+""" ++ [28040; 24687]%N ++ runes_of_ascii """	)zchar[  007]
+options1 @lengthOf(  msg_type )
+,
+} MetaData T  { int16 u8x,char[
+    1 ]
+    repeatCount ,  uint16 i64_
+`u8 x,` ,
+    Header
+    x	`` // " ++ [128512]%N ++ runes_of_ascii " emoji
+, stringy
+msg_type
+`" ++ [28040; 24687; 31867; 22411]%N ++ runes_of_ascii "` ,	} packet
+i8i8
+{
+} packet
+Header {
+repeat Z9_ roots ,
+    }  packet calculatedFrom { T	@lengthOf( Foo )`u8 x,`
+    // " ++ [128512]%N ++ runes_of_ascii " emoji
+    , match tag as
+//	t
+// a // b
+charz { ""\" ++ [233]%N ++ runes_of_ascii """: string_ , [
+1,""" ++ [28040; 24687]%N ++ runes_of_ascii """
+,/// triple
+""CRC32""]: falsey , [ 007] :float	, 3 : MetaDataX ,
+[ ""`tick`""] :
+u , 1
+// trailing space 
 // packet A { u8 x, }
+: metadata ,}// `tick` ""quote"" 'q'
+,
+}
+")).
+Eval vm_compute in ("<<<M4423>>>" ++ check (runes_of_ascii "MetaData Packet {
+    // `tick` ""quote"" 'q'
+    Header uint8x `{ , }`,
+    x_y_z u8x `it's`,
+}// trailing space 
+
+root packet packetx {
+    repeat char[] packetx,
+    string zchar @lengthOf(a1) `tab	here`,
+    match string_ as float {
+        ""a\""b"" : Logon,
+        00 : Foo,
+        42 : stringy,
+        [255, 0, ""a\\""] : f32a,
+        // @lengthOf(
+        [7, ""`tick`""] : float,
+        0 : len,
+    },
+    @lengthOf(Header)
+    //
+    len `doc`,
+    repeat Pad {
+        // " ++ [27880; 37322]%N ++ runes_of_ascii "
+        repeat Pad `it's`,// @lengthOf(
+        char[65535] i64_ @calculatedFrom(""1"") `a\`,
+        crc `two words`,
+        match len as BodyLength {
+            ""abc"" : a1,
+            [""packet"", 7] : crc,
+            // c
+            3 : asx,
+        },
+    },
+    int8 rootA @lengthOf(crc),
+    @lengthOf(chars)
+    // trailing space 
+    @tag(7)
+    @tag(7)
+    repeat char[10] packetx,
+}")).
+Eval vm_compute in ("<<<M975>>>" ++ check (runes_of_ascii "
+root packet _x{@lengthOf(
+    //
+    options1 ) charz @lengthOf( Foo
+)	,// packet A { u8 x, }
+} packet metadata
+    { }
+    packet
+crc  { stringy@calculatedFrom(  ""packet"" )
+`// not a comment` , @tag(42 )repeat
+leftPad	{body@calculatedFrom( ""a\""b"" ) `two words`, } ,@tag( 1	) repeat uint16 packetx `a\` // trailing space 
+,repeat zchar[ 00]matchKey
 /// triple
-f32a =10 chars // trailing space 
-=
-""\" ++ [233]%N ++ runes_of_ascii """ x =uint8 ;
-metadata =42 ;  lengthOf =true ;}
-    options {
-// " ++ [27880; 37322]%N ++ runes_of_ascii "
-// " ++ [128512]%N ++ runes_of_ascii " emoji
-BodyLength = true
-    ; }")).
-Eval vm_compute in ("<<<M1893>>>" ++ check (runes_of_ascii "MetaData
-    u { }  options {
-// c
-// @lengthOf(
-float zchar[ int8 ;rootA =false ; As =	int16 // `tick` ""quote"" 'q'
-repeatCount
-    // trailing space 
-    =
-    int16
-; u8x =
-    //	t
-    '\x00' ; } options	{
-    repeatCount
-= 0
-u128
-    //
-    = false ; i64_
-// trailing space 
-// `tick` ""quote"" 'q'
-= '0' ; //	t
-}
-")).
-Eval vm_compute in ("<<<M1891>>>" ++ check (runes_of_ascii "MetaData
-    u { }  options {
-// c
-// @lengthOf(
-float = = int8 ;rootA =false ; As =	int16 // `tick` ""quote"" 'q'
-repeatCount
-    // trailing space 
-    =
-    int16
-; u8x =
-    //	t
-    '\x00' ; } options	{
-    repeatCount
-= 0
-u128
-    //
-    = false ; i64_
-// trailing space 
-// `tick` ""quote"" 'q'
-= '0' ; //	t
-}
-")).
-Eval vm_compute in ("<<<M1907>>>" ++ check (runes_of_ascii "MetaData
-    u { }  options {
-// c
-// @lengthOf(
-float = int8 ;= rootA false ; As =	int16 // `tick` ""quote"" 'q'
-repeatCount
-    // trailing space 
-    =
-    int16
-; u8x =
-    //	t
-    '\x00' ; } options	{
-    repeatCount
-= 0
-u128
-    //
-    = false ; i64_
-// trailing space 
-// `tick` ""quote"" 'q'
-= '0' ; //	t
-}
-")).
-Eval vm_compute in ("<<<M1952>>>" ++ check (runes_of_ascii "MetaData
-    u { }  options {
-// c
-// @lengthOf(
-float = int8 ;rootA =false ; As =	int16 // `tick` ""quote"" 'q'
-repeatCount
-    // trailing space 
-    =
-    ;
-int16 u8x =
-    //	t
-    '\x00' ; } options	{
-    repeatCount
-= 0
-u128
-    //
-    = false ; i64_
-// trailing space 
-// `tick` ""quote"" 'q'
-= '0' ; //	t
-}
-")).
-Eval vm_compute in ("<<<M1900>>>" ++ check (runes_of_ascii "MetaData
-    u { }  options {
-// c
-// @lengthOf(
-float = int8 rootA =false ; As =	int16 // `tick` ""quote"" 'q'
-repeatCount
-    // trailing space 
-    =
-    int16
-; u8x =
-    //	t
-    '\x00' ; } options	{
-    repeatCount
-= 0
-u128
-    //
-    = false ; i64_
-// trailing space 
-// `tick` ""quote"" 'q'
-= '0' ; //	t
-}
-")).
-Eval vm_compute in ("<<<M1953>>>" ++ check (runes_of_ascii "MetaData
-    u { }  options {
-// c
-// @lengthOf(
-float = int8 ;rootA =false ; As =	int16 // `tick` ""quote"" 'q'
-repeatCount
-    // trailing space 
-    =
-    {
-; u8x =
-    //	t
-    '\x00' ; } options	{
-    repeatCount
-= 0
-u128
-    //
-    = false ; i64_
-// trailing space 
-// `tick` ""quote"" 'q'
-= '0' ; //	t
-}
-")).
-Eval vm_compute in ("<<<M2049>>>" ++ check (runes_of_ascii "MetaData
-    u { }  options {
-// c
-// @lengthOf(
-float = int8 ;rootA =false ; As =	int16 // `tick` ""quote"" 'q'
-repeatCount
-    // trailing space 
-    =
-    int16
-; u8x =
-    //	t
-    '\x00' ; } options	{
-    repeatCount
-= 0
-u128
-    //
-    = false ; i64_
-// trailing space 
-// `tick` ""quote"" 'q'
-= '0'")).
-Eval vm_compute in ("<<<M4027>>>" ++ check (runes_of_ascii "// top
-packet A {
-    // c2
-    u8 a,// c5a
-}
-
-packet B {
-    // c9a
-    // c9b
-    u16 b,
-}// c13
-
-root packet P {
-    // c17
-    u8 K1,// c20a
-    // c20b
-    u8 K2,// c23
-    match K1 as M1 {
-        // c28a
-        // c28b
-        1 : A,
-    },
-    match K2 as M2 {
-        1 : B,
-    },
-}")).
-Eval vm_compute in ("<<<M4145>>>" ++ check (runes_of_ascii "root packet u128 {
-}
-
-MetaData u128 {
-    int32 chars,
-    i8 pack,
-    i8i8 options1,
-    char[] matchKey,
-    string msg_type `doc`,
-    string charz,
-}
-
-// `tick` ""quote"" 'q'
-packet BodyLength {
-    @lengthOf(As)
-    repeat _x {
-        i64_,
-    },
-    repeat char[3] roots,
-}")).
-Eval vm_compute in ("<<<M1543>>>" ++ check (runes_of_ascii "packet
-//	t
-// trailing space 
-_x {
-// packet A { u8 x, }
-// c
-char[
-3
-    ] u8x @lengthOf(
-u8x ) , @calculatedFrom( @calculatedFrom(""" ++ [128512]%N ++ runes_of_ascii """ // @lengthOf(
-)
-i16	Foo
-@lengthOf(	string_
-    )`doc`	, repeat	i64 metadata , @lengthOf( string_
-) i8 // c
-u  `line1
-line2`	,
-}
-")).
-Eval vm_compute in ("<<<M1625>>>" ++ check (runes_of_ascii "packet
-//	t
-// trailing space 
-_x {
-// packet A { u8 x, }
-// c
-char[
-3
-    ] u8x @lengthOf(
-u8x ) , @calculatedFrom(""" ++ [128512]%N ++ runes_of_ascii """ // @lengthOf(
-)
-i16	Foo
-@lengthOf(	string_
-    )`doc`	, repeat	i64 metadata , @lengthOf( string_
-@lengthOf( i8 // c
-u  `line1
-line2`	,
-}
-")).
-Eval vm_compute in ("<<<M1598>>>" ++ check (runes_of_ascii "packet
-//	t
-// trailing space 
-_x {
-// packet A { u8 x, }
-// c
-char[
-3
-    ] u8x @lengthOf(
-u8x ) , @calculatedFrom(""" ++ [128512]%N ++ runes_of_ascii """ // @lengthOf(
-)
-i16	Foo
-@lengthOf(	string_
-    )`doc`	, repeat	i64 i64 metadata , @lengthOf( string_
-) i8 // c
-u  `line1
-line2`	,
-}
-")).
-Eval vm_compute in ("<<<M1495>>>" ++ check (runes_of_ascii "packet
-//	t
-// trailing space 
-i16 {
-// packet A { u8 x, }
-// c
-char[
-3
-    ] u8x @lengthOf(
-u8x ) , @calculatedFrom(""" ++ [128512]%N ++ runes_of_ascii """ // @lengthOf(
-)
-i16	Foo
-@lengthOf(	string_
-    )`doc`	, repeat	i64 metadata , @lengthOf( string_
-) i8 // c
-u  `line1
-line2`	,
-}
-")).
-Eval vm_compute in ("<<<M1549>>>" ++ check (runes_of_ascii "packet
-//	t
-// trailing space 
-_x {
-// packet A { u8 x, }
-// c
-char[
-3
-    ] u8x @lengthOf(
-u8x ) , @calculatedFrom() // @lengthOf(
-""" ++ [128512]%N ++ runes_of_ascii """
-i16	Foo
-@lengthOf(	string_
-    )`doc`	, repeat	i64 metadata , @lengthOf( string_
-) i8 // c
-u  `line1
-line2`	,
-}
-")).
-Eval vm_compute in ("<<<M1537>>>" ++ check (runes_of_ascii "packet
-//	t
-// trailing space 
-_x {
-// packet A { u8 x, }
-// c
-char[
-3
-    ] u8x @lengthOf(
-u8x )  @calculatedFrom(""" ++ [128512]%N ++ runes_of_ascii """ // @lengthOf(
-)
-i16	Foo
-@lengthOf(	string_
-    )`doc`	, repeat	i64 metadata , @lengthOf( string_
-) i8 // c
-u  `line1
-line2`	,
-}
-")).
-Eval vm_compute in ("<<<M1582>>>" ++ check (runes_of_ascii "packet
-//	t
-// trailing space 
-_x {
-// packet A { u8 x, }
-// c
-char[
-3
-    ] u8x @lengthOf(
-u8x ) , @calculatedFrom(""" ++ [128512]%N ++ runes_of_ascii """ // @lengthOf(
-)
-i16	Foo
-@lengthOf(	string_
-    )	, repeat	i64 metadata , @lengthOf( string_
-) i8 // c
-u  `line1
-line2`	,
-}
-")).
-Eval vm_compute in ("<<<M4160>>>" ++ check (runes_of_ascii "MetaData a1
-{
-	char[]
-
-    repeatCount
-
-`it's`
-
-, char[ 
-4294967296 	 // @lengthOf(
-]i8i8// c
-    `// not a comment` 
+//x
+``
+,@calculatedFrom(	""`tick`"" )//
+@calculatedFrom( ""1""
+) char[ 00]
+u128 @lengthOf(
+    a1 ) , @lengthOf( lengthOf)@rightPad
+    (
+    '0'
+) @lengthOf(u128) rootA, } options
+    { } packet u128 { @tag(
+    // `tick` ""quote"" 'q'
+    3 )
+    @tag(
     // packet A { u8 x, }
-
-	,
-
-    // @lengthOf(
-
-/// triple
-  float32 zchar
-	,	}
-packet
+    255 /// triple
+) @lengthOf(
+_x )	char crc
+    `// not a comment`
+// " ++ [128512]%N ++ runes_of_ascii " emoji
+//	t
+,repeat matchKey
+    repeatCount , repeat
+    T
+    `a\`
+,	@tag( 00 ) repeat rootA`tab	here`, } //	t")).
+Eval vm_compute in ("<<<M599>>>" ++ check (runes_of_ascii "root
+    packet options1{
+@lengthOf(  zchar ) charz `
+` , //	t
+Header {//
+char[ 00]
+msg_type, repeat zchar[
+007
+] Z9_ , } ,@tag(  10 )uint32 Foo , u32 u128
+@lengthOf(float ) `two words`  , repeat
+    char[ 7 ] stringy
+    ``
+    ,
+Packet @lengthOf( /// triple
+f32a ) , i64_
+pack
+, @calculatedFrom( ""packet"") repeat lengthOf { body @lengthOf(
+//
+// packet A { u8 x, }
+a1) `{ , }` //
+, x_y_z, },}
+    packet string_
+{ @calculatedFrom(
+    ""a	b""	) zchar[// `tick` ""quote"" 'q'
+0123456789 ] i64_	,@lengthOf(
     calculatedFrom
+) u8x calculatedFrom , @tag( 1 )	repeat float32 BodyLength
+, chars crc
+, }root packet
+    f32a { i32 _x  , }packet falsey { repeat char[ 007
+    ] MetaDataX ,
+@leftPad ( '0' ) // `tick` ""quote"" 'q'
+packetx
+    , x@calculatedFrom( ""\" ++ [233]%N ++ runes_of_ascii """ ) , }
+")).
+Eval vm_compute in ("<<<M1256>>>" ++ check (runes_of_ascii "MetaData stringy {string
+zchar, zchar
+uint8x  , string BodyLength `{ , }`
+// @lengthOf(
+// " ++ [128512]%N ++ runes_of_ascii " emoji
+,
+    zchar[  1 ]
+crc `doc` ,	zchar[ 7
+] T//	t
+`two words`, char[] A `a\`,
+} packet
+    string_{
+repeat len `a\` ,
+zchar
+    `" ++ [233]%N ++ runes_of_ascii "` ,	}
+    MetaData
+x_y_z { stringy
+    metadata
+    , char[]Z9_
+`it's` ,}
+packet // a // b
+falsey {
+    @calculatedFrom(
+// " ++ [27880; 37322]%N ++ runes_of_ascii "
+// @lengthOf(
+""" ++ [233]%N ++ runes_of_ascii "t" ++ [233]%N ++ runes_of_ascii """
+)match Pad as u
+{0123456789
+    //	t
+    :	trueish,	} , // " ++ [128512]%N ++ runes_of_ascii " emoji
+repeat
+    char[] calculatedFrom `u8 x,`, f64
+    A ,
+    body @calculatedFrom( ""`tick`"" // `tick` ""quote"" 'q'
+) , }root
+packet roots  { zchar[ 10 ]roots
+`crlf
+line`	,
+Z9_
+{ zchar[ 7 ] leftPad`" ++ [233]%N ++ runes_of_ascii "` ,} ,
+int64 calculatedFrom `a\` , crc
+    u128 ,
+char[
+1	] A@calculatedFrom( ""{,}"") `doc`  , }
+")).
+Eval vm_compute in ("<<<M36>>>" ++ check (runes_of_ascii "packet  int {@tag( 00
+) float	,
+@leftPad( '0'
+)@calculatedFrom(""" ++ [28040; 24687]%N ++ runes_of_ascii """ ) match crc
+as body
+    {""`tick`"" : msg_type} // @lengthOf(
+,
+Logon
+,repeat u8x, // " ++ [27880; 37322]%N ++ runes_of_ascii "
+} packet MetaDataX { }packet string_ {
+repeat //
+Header Header
+, // trailing space 
+} packet
+A{ @rightPad // " ++ [27880; 37322]%N ++ runes_of_ascii "
+( '\x00' // trailing space 
+) @leftPad (
+    ' ' ) repeat uint64
+    matchKey // trailing space 
+, f32 len // @lengthOf(
+, // trailing space 
+repeat
+tag
+{i64
+// @lengthOf(
+// " ++ [27880; 37322]%N ++ runes_of_ascii "
+roots
+    // " ++ [27880; 37322]%N ++ runes_of_ascii "
+    @lengthOf( metadata ), }
+, @tag(
+65535
+    ) char[ //
+00 ]
+// a // b
+/// triple
+a1
+    ,repeat i16 i8i8 ,char[
+3 ]int @calculatedFrom(
+""a\\"" ) , // a // b
+@calculatedFrom( """ ++ [28040; 24687]%N ++ runes_of_ascii """) Pad// " ++ [128512]%N ++ runes_of_ascii " emoji
+@lengthOf(
+stringy ) ,/// triple
+}
+")).
+Eval vm_compute in ("<<<M655>>>" ++ check (runes_of_ascii "  packet i8i8 { } options { options1//	t
+=true ; // " ++ [27880; 37322]%N ++ runes_of_ascii "
+}	packet pack{
+    //	t
+    lengthOf{ char[	10
+]	len@calculatedFrom(
+""\" ++ [233]%N ++ runes_of_ascii """
+)
+// " ++ [27880; 37322]%N ++ runes_of_ascii "
+// " ++ [27880; 37322]%N ++ runes_of_ascii "
+`a\` , }
+,
+    } root packet repeatCount{u128 len `line1
+line2` ,
+@calculatedFrom( ""// no comment"" // `tick` ""quote"" 'q'
+) repeat char[]zchar`// not a comment` ,	a1 , repeat zchar[  1
+]	u `crlf
+line` , } packet
+lengthOf{@calculatedFrom(
+    //
+    ""packet"" ) // a // b
+float64
+trueish
+@lengthOf( Z9_
+) , @leftPad
+    ( )
+    match options1 as A
+    //x
+    {""it's"":len
+    ,
+    ["""" ] :T // " ++ [128512]%N ++ runes_of_ascii " emoji
+,	[
+    //
+    00
+// c
+// `tick` ""quote"" 'q'
+] : calculatedFrom, 1:MetaDataX	, 4294967296 :
+    u , } // a // b
+,}
+//
+")).
+Eval vm_compute in ("<<<M1278>>>" ++ check (runes_of_ascii "//x
+packet	_x { repeat
+    charz { repeat asx,//x
+string metadata ,//x
+uint64	a1 @calculatedFrom(	""it's"") `a\`
+    , }
+,
+    @rightPad//
+() msg_type len
+``,MetaDataX asx // " ++ [128512]%N ++ runes_of_ascii " emoji
+,@rightPad
+(
+    '\x00' )zchar[ 3] int,
+}packet Packet
+    { @leftPad(
+    )
+string_{ repeat
+    calculatedFrom// a // b
+`it's` , }
+    // " ++ [128512]%N ++ runes_of_ascii " emoji
+    , @calculatedFrom(""a	b""
+    ) @tag( 00 )@rightPad(
+' ')
+u64 stringy // " ++ [128512]%N ++ runes_of_ascii " emoji
+@calculatedFrom( ""a	b"" // @lengthOf(
+)
+, @leftPad
+    (
+'\x00' ) options1 `" ++ [233]%N ++ runes_of_ascii "`
+    , @rightPad ( ) repeat char[ 007
+]Foo `line1
+line2`
+,
+} options
+{len
+    = '\x00' ;
+    roots  =
+""{,}""packetx =i64 ;
+    }
+")).
+Eval vm_compute in ("<<<M709>>>" ++ check (runes_of_ascii "options
+{ }  root packet a1 { @tag( 00
+)Logon , @calculatedFrom( ""{,}""
+)repeatCount
+// a // b
+// packet A { u8 x, }
+{ repeat float i64_ ,
+    match u8x // trailing space 
+as
+leftPad
+    // `tick` ""quote"" 'q'
+    {3 :u128 ,1	: i8i8
+//	t
+// " ++ [128512]%N ++ runes_of_ascii " emoji
+, 42 :
+    u128
+, """ ++ [233]%N ++ runes_of_ascii "t" ++ [233]%N ++ runes_of_ascii """
+: msg_type , [ 1,
+42 ] : A , } ,
+    repeat
+    i64 metadata ,
+} ,
+    match	len
+as	Z9_ { 255 :o,
+    0123456789 :Pad ,//
+[ 7
+, ""{,}""
+    , // trailing space 
+""abc"" , 007 ] :chars
+, 3
+: // packet A { u8 x, }
+packetx 00 ://
+o, /// triple
+} ,  zchar[ 0123456789
+    ]
+i64_
+@lengthOf(	chars ) , float32 trueish `" ++ [28040; 24687; 31867; 22411]%N ++ runes_of_ascii "` ,}
+")).
+Eval vm_compute in ("<<<M3648>>>" ++ check (runes_of_ascii "options {	LittleEndian	= false  ;ArrayPrefixLenType = u64
+    ;	FixedStringPadChar
+	=	'0'
+	; 
+}
+	packet
+	Quote
+
+{
+
+    repeat 
+InFlags37
+{
+
+    char[] lastPx,
+
+    }	,
+i16 tag7
+
+    ,  char[]
+
+    f1 ,
+
+    zchar[
+
+    6
+]
+
+    Note, } packet
+
+    Order {
+
+u8 
+Ref ,repeat Quote
+	,
+	repeat
+	string  Acct
+	, }root
+
+packet
+Heartbeat
+
+    {
+repeat
+	Quote
+
+    ,@leftPad
+(
+'0')char[
+
+    11	]
+	OrderId	,zchar[  8
+
+    ]Ref
+
+,
+
+u32
+Flags	,u32 Tail
+    @lengthOf(
+
+Body
+
+    ),
+	match
+
+    Flags
+
+as 
+Body 
+{
+156
+	:Order 
+,7 :
+    Quote, } 
+,
+}
+
+")).
+Eval vm_compute in ("<<<M4363>>>" ++ check (runes_of_ascii "options {
+u8x	=
+0123456789
+;
+	} packet
+rootA {
+
+    i8i8 
+repeatCount
+, 
+}
+
+    // " ++ [27880; 37322]%N ++ runes_of_ascii "
+    // a // b
+	  root
+packet
+MetaDataX
+
+{ 	 // @lengthOf(
+
+	Logon  // " ++ [27880; 37322]%N ++ runes_of_ascii "
 	{
 
+int64 i8i8 @lengthOf(Header)  , 
+  //x
+  },  }  root
+	packet// @lengthOf(
+  	Pad  { roots
+
+{ i16
+	Logon 
+@calculatedFrom(
+
+""" ++ [233]%N ++ runes_of_ascii "t" ++ [233]%N ++ runes_of_ascii """
+
+    ),match
+	As
+as
+
+float {[""packet"" 	 //
+		,
+
+""// no comment""
+    ] : a1
+
+,
+65535 : f32a,	[
+
+""a\""b""
+
+    ,
+	""// no comment"" ,""a	b"" ,
+    //
+  ""a	b""
+,
+""a\\"" ] :
+    x 
+, ""{,}""  :
+    rootA ,
+    10
+	:
+
+msg_type
+,
+} 
+,  }
+	,
+
+}	options{ }")).
+Eval vm_compute in ("<<<M4216>>>" ++ check (runes_of_ascii "options
+	{  }
+packet 
+BodyLength	{	i8i8
+
+@lengthOf( trueish 
+) ,	repeat
+body
+
+    ,	// " ++ [27880; 37322]%N ++ runes_of_ascii "
+      @calculatedFrom(""1""
+
+)
+	repeat
+int64
+i64_, @tag( 0 ) 
+MetaDataX
+msg_type	`" ++ [28040; 24687; 31867; 22411]%N ++ runes_of_ascii "` ,	Pad {
+    Header@calculatedFrom(
+
+""""
+), }	,
+	@tag( 42
+	)u8
+    asx  `u8 x,`	,@tag(3 ) repeat string_
+    {
+
+    metadata{ 	 // @lengthOf(
+char[0123456789
+
+    ]
+	crc
+,
+    Packet `" ++ [28040; 24687; 31867; 22411]%N ++ runes_of_ascii "`
+,  //x
+
+	options1 
+	// " ++ [128512]%N ++ runes_of_ascii " emoji
+
+	`tab	here` // packet A { u8 x, }
+    ,
+	}
+,repeat
+
+Packet	,
+}
+    , }
+    //x
+	options
+{ x
+	= char[  10 ]; 
+}")).
+Eval vm_compute in ("<<<M4450>>>" ++ check (runes_of_ascii "packet matchKey {
+}
+
+packet string_ {
+    matchKey @lengthOf(asx),
+    @rightPad(' ')
+    metadata,
+    // a // b
+    // @lengthOf(
+    o chars,
+    uint16 tag `u8 x,`,
+    repeat float32 Logon `two words`,/// triple
+    matchKey @calculatedFrom(""a	b"") `doc`,
+    repeat packetx a1,
+}
+
+MetaData Packet {
+    char[] pack,
+    string zchar,
+    zchar[1] x_y_z,
+    int64 charz `say ""hi""`,
+    u32 lengthOf `doc`,
+}
+
+options {
+    a1 = int16;
+    crc = ' ';
+    tag = char[42]
+    leftPad = true;
+}")).
+Eval vm_compute in ("<<<M600>>>" ++ check (runes_of_ascii "packet x_y_z{ @calculatedFrom( """ ++ [128512]%N ++ runes_of_ascii """ )match a1	as MetaDataX { // a // b
+""" ++ [128512]%N ++ runes_of_ascii """ :
+    u8x , [	""" ++ [28040; 24687]%N ++ runes_of_ascii """ ] :asx 255 : falsey , [ 007
+]
+:
+stringy
+    10: chars /// triple
+, } , string_
+{ char[ 4294967296 ] packetx, }, } // trailing space 
+root packet
+    u128 { calculatedFrom MetaDataX`crlf
+line`	, repeat leftPad x_y_z
+    //
+    ,} packet BodyLength {
+char Pad @lengthOf( uint8x ) `" ++ [233]%N ++ runes_of_ascii "` ,@tag(
+    42  )  @calculatedFrom( """ ++ [28040; 24687]%N ++ runes_of_ascii """)
+    repeat charz ,chars @calculatedFrom(	""" ++ [233]%N ++ runes_of_ascii "t" ++ [233]%N ++ runes_of_ascii """
+    ) , }")).
+Eval vm_compute in ("<<<M628>>>" ++ check (runes_of_ascii "  root packet tag {
+@lengthOf( uint8x )@calculatedFrom(""1"" ) options1	,
+    } MetaData
+    Z9_ {string options1 `crlf
+line` //	t
+,charz string_ ,	} root packet float {@calculatedFrom( ""packet"" )chars{ //x
+repeat chars{
+i8 matchKey `a\` ,
+} ,	}//	t
+, i32 len
+    @lengthOf( u8x )
+// trailing space 
+// " ++ [128512]%N ++ runes_of_ascii " emoji
+, @lengthOf(repeatCount )
+@tag(
+// @lengthOf(
+//	t
+0123456789 )@tag( 007
+) uint64
+    //	t
+    o @calculatedFrom( """ ++ [28040; 24687]%N ++ runes_of_ascii """// a // b
+) ,
     }
 ")).
-Eval vm_compute in ("<<<M504>>>" ++ check (runes_of_ascii "
-packet Z9_ { } // " ++ [27880; 37322]%N ++ runes_of_ascii "
-MetaData packetx
-{ u8 x_y_z
-    `it's` , } packet options1
-    {
-uint16 rootA
-    `" ++ [28040; 24687; 31867; 22411]%N ++ runes_of_ascii "`
+Eval vm_compute in ("<<<M148>>>" ++ check (runes_of_ascii "packet Foo  { Logon A`a\`, a1 A
+, @lengthOf(
+//	t
+// trailing space 
+tag ) // trailing space 
+x_y_z
+@lengthOf( leftPad
+    ) `it's`, @tag( 255 ) match crc// @lengthOf(
+as  roots {
+""" ++ [233]%N ++ runes_of_ascii "t" ++ [233]%N ++ runes_of_ascii """	:Foo ,[ 10 , 007 //
+, // a // b
+""" ++ [233]%N ++ runes_of_ascii "t" ++ [233]%N ++ runes_of_ascii """ ,
+// c
+// @lengthOf(
+""a	b""]
+    :x_y_z}
+    , // @lengthOf(
+}  root packet As { }	MetaData calculatedFrom // trailing space 
+{ Z9_ _x ``	,
+} MetaData tag { // " ++ [27880; 37322]%N ++ runes_of_ascii "
+string body , string options1 ,i8i8 pack, }
+")).
+Eval vm_compute in ("<<<M284>>>" ++ check (runes_of_ascii "MetaData
+Header { int64
+zchar
+`u8 x,` , Header u8x ,  zchar[ 65535]u ,	A options1
+`it's` , zchar[  007 ] MetaDataX , zchar[// `tick` ""quote"" 'q'
+0] As , }
+    MetaData Logon	{char[] rootA,
+} packet int
+{
+f32 falsey, } MetaData float { len
+leftPad ,
+    A
+    Foo
+`tab	here`
+    , char[ 65535
+] T
+`line1
+line2` ,	} options // " ++ [128512]%N ++ runes_of_ascii " emoji
+{
+// " ++ [128512]%N ++ runes_of_ascii " emoji
+// " ++ [27880; 37322]%N ++ runes_of_ascii "
+float
+    ='0'
 //x
-// `tick` ""quote"" 'q'
-, // " ++ [128512]%N ++ runes_of_ascii " emoji
-repeat string stringy`" ++ [233]%N ++ runes_of_ascii "` ,
-    char[] // @lengthOf(
-repeatCount `" ++ [28040; 24687; 31867; 22411]%N ++ runes_of_ascii "`
+// a // b
+;float
+= true
+    ;	Foo = ""\n""}")).
+Eval vm_compute in ("<<<M3615>>>" ++ check (runes_of_ascii "packet  Frame
+{
+u8
+
+    HK
+
+    ,u8 BK
+,  u8 
+TK ,match HK as
+
+Hdr
+    {	1
+    :
+	HdrA
+
+    ,
+2
+
+:
+HdrB
+    ,},match
+
+    BK  as
+Body	{  1 : BodyA ,
+2
+	: BodyB,
+},match
+TK
+	as Trl
+{ 
+1: TrlA ,}
+
+,	}
+packet
+
+HdrA 
+{
+u8 a
 ,
-    }")).
-Eval vm_compute in ("<<<M2004>>>" ++ check (runes_of_ascii "MetaData
+
+    }
+
+packet
+HdrB 
+{ u16
+    b
+,	}	packet BodyA  {	u32 c
+,}packet  BodyB{  u64 d
+
+, }
+packet
+    TrlA	{ u8
+e,
+}root
+
+packet
+	Msg
+	{  Frame
+    ,
+	u8
+x, }")).
+Eval vm_compute in ("<<<M4519>>>" ++ check (runes_of_ascii "packet rootA 
+{
+@rightPad( ' ')	repeat Z9_	roots
+	``  , zchar tag `two words`	,@rightPad (
+    ' '
+    )len
+
+{ 
+      // trailing space 
+	//x
+u128 `doc`
+
+,
+    u8x, char[
+0123456789	// a // b
+  ] calculatedFrom`" ++ [28040; 24687; 31867; 22411]%N ++ runes_of_ascii "`
+    ,msg_type  @lengthOf(
+
+    falsey ) `u8 x,`
+, 
+}
+
+    ,
+@calculatedFrom(  """" )
+
+f64 charz  @lengthOf(
+msg_type
+)
+    `it's` // trailing space 
+  ,	}
+
+")).
+Eval vm_compute in ("<<<M4428>>>" ++ check (runes_of_ascii "// trailing space 
+	packet// " ++ [27880; 37322]%N ++ runes_of_ascii "
+
+pack{
+@lengthOf(
+
+Pad  )
+
+    char[]
+
+msg_type,}
+
+    options { 
+
+    // " ++ [128512]%N ++ runes_of_ascii " emoji
+// " ++ [128512]%N ++ runes_of_ascii " emoji
+    chars
+
+    = 
+int32
+	; //
+
+chars=""CRC32""
+}packet
+f32a{
+@calculatedFrom(
+
+    ""a\""b"") zchar
+	@lengthOf(
+
+    o
+
+    )
+	,
+
+int32
+
+o
+
+    , repeat	int64	// packet A { u8 x, }
+    zchar
+// " ++ [128512]%N ++ runes_of_ascii " emoji
+  `" ++ [28040; 24687; 31867; 22411]%N ++ runes_of_ascii "` ,
+
+}/// triple")).
+Eval vm_compute in ("<<<M1322>>>" ++ check (runes_of_ascii "packet
+    options1 { repeat
+zchar[ 7
+]
+i8i8 ,_x { zchar[ 65535 ]i8i8 @lengthOf( uint8x ) ,match x_y_z as lengthOf
+    { //x
+[ 00// " ++ [27880; 37322]%N ++ runes_of_ascii "
+, 1// " ++ [27880; 37322]%N ++ runes_of_ascii "
+, 10 ,  ""\" ++ [233]%N ++ runes_of_ascii """ , 42 , 00
+] : Pad, [4294967296 ] : asx
+    0123456789:
+x_y_z ,
+}// trailing space 
+, zchar[
+0]float
+    ,}
+    , int16
+    T @lengthOf( charz ) `` , }MetaData pack {int64 //	t
+chars
+,  }")).
+Eval vm_compute in ("<<<M3674>>>" ++ check (runes_of_ascii "root
+packet
+BodyLength
+
+    {
+	u16
+tag  @calculatedFrom( ""packet""
+    )	// packet A { u8 x, }
+	, u8  i8i8 
+,  repeat float64 string_ `u8 x,`
+,}MetaData stringy
+    {
+repeatCount a1 , 
+// " ++ [27880; 37322]%N ++ runes_of_ascii "
+		char[  0123456789 ]
+
+    u128	`doc`//	t
+    , u16
+	_x
+
+,i64
+	pack 
+, 
+i64 BodyLength
+`say ""hi""`, zchar[ 255
+
+    ]
+Z9_
+
+    ,	} ")).
+Eval vm_compute in ("<<<M516>>>" ++ check (runes_of_ascii "root packet
+u128	{} MetaData
+u128 { int32
+    chars , i8 pack // " ++ [27880; 37322]%N ++ runes_of_ascii "
+, i8i8
+options1
+, /// triple
+char[] matchKey,	string
+    msg_type `doc` //
+,  string charz ,
+    }
+    // `tick` ""quote"" 'q'
+    packet
+// " ++ [128512]%N ++ runes_of_ascii " emoji
+// @lengthOf(
+BodyLength	{@lengthOf(
+    As ) repeat
+    _x{ i64_
+,
+    } , repeat char[ 3 ] roots ,}")).
+Eval vm_compute in ("<<<M1903>>>" ++ check (runes_of_ascii "MetaData
+    u { }  options {
+// c
+// @lengthOf(
+float = int8 len rootA =false ; As =	int16 // `tick` ""quote"" 'q'
+repeatCount
+    // trailing space 
+    =
+    int16
+; u8x =
+    //	t
+    '\x00' ; } options	{
+    repeatCount
+= 0
+u128
+    //
+    = false ; i64_
+// trailing space 
+// `tick` ""quote"" 'q'
+= '0' ; //	t
+}
+")).
+Eval vm_compute in ("<<<M2061>>>" ++ check (runes_of_ascii "MetaData
+    u { }  options {
+// c
+// @lengthOf(
+float = int8 ;rootA =false ; As =	int16 // `tick` ""quote"" 'q'
+repeatCount
+    // trailing space 
+    =
+    int16
+; u8x =
+    //	t
+    '\x00' ; ' } options	{
+    repeatCount
+= 0
+u128
+    //
+    = false ; i64_
+// trailing space 
+// `tick` ""quote"" 'q'
+= '0' ; //	t
+}
+")).
+Eval vm_compute in ("<<<M1887>>>" ++ check (runes_of_ascii "MetaData
+    u { }  options {
+// c
+// @lengthOf(
+= float int8 ;rootA =false ; As =	int16 // `tick` ""quote"" 'q'
+repeatCount
+    // trailing space 
+    =
+    int16
+; u8x =
+    //	t
+    '\x00' ; } options	{
+    repeatCount
+= 0
+u128
+    //
+    = false ; i64_
+// trailing space 
+// `tick` ""quote"" 'q'
+= '0' ; //	t
+}
+")).
+Eval vm_compute in ("<<<M2037>>>" ++ check (runes_of_ascii "MetaData
     u { }  options {
 // c
 // @lengthOf(
@@ -2267,30 +1946,369 @@ repeatCount
 ; u8x =
     //	t
     '\x00' ; } options	{
-    repeatCount")).
-Eval vm_compute in ("<<<M764>>>" ++ check (runes_of_ascii "MetaData// packet A { u8 x, }
-matchKey { u64
-leftPad
-    //x
-    ,
-u32 T `it's` , uint8 x,
-    // packet A { u8 x, }
-    char[] f32a	`say ""hi""`
-, f64// trailing space 
-stringy ``	, lengthOf
-Packet  `say ""hi""`, }")).
-Eval vm_compute in ("<<<M1712>>>" ++ check (runes_of_ascii "options { trueish = ""`tick`"" ; string_= """ ++ [233]%N ++ runes_of_ascii "t" ++ [233]%N ++ runes_of_ascii """ """ ++ [233]%N ++ runes_of_ascii "t" ++ [233]%N ++ runes_of_ascii """
-    // c
-    } root
-    packet body { stringy @calculatedFrom(
-""a	b"" ) `line1
-line2` , }
-packet Logon {
-    @leftPad(
-    ' ' ) //	t
-u16 string_ `u8 x,` ,
+    repeatCount
+= 0
+u128
+    //
+    = false ; i64_
+// trailing space 
+// `tick` ""quote"" 'q'
+'0' = ; //	t
 }
 ")).
+Eval vm_compute in ("<<<M2050>>>" ++ check (runes_of_ascii "MetaData
+    u { }  options {
+// c
+// @lengthOf(
+float = int8 ;rootA =false ; As =	int16 // `tick` ""quote"" 'q'
+repeatCount
+    // trailing space 
+    =
+    int16
+; u8x =
+    //	t
+    '\x00' ; } options	{
+    repeatCount
+= 0
+u128
+    //
+    = false ; i64_
+// trailing space 
+// `tick` ""quote"" 'q'
+= '0' ; //	t
+
+")).
+Eval vm_compute in ("<<<M1875>>>" ++ check (runes_of_ascii "MetaData
+    u { }   {
+// c
+// @lengthOf(
+float = int8 ;rootA =false ; As =	int16 // `tick` ""quote"" 'q'
+repeatCount
+    // trailing space 
+    =
+    int16
+; u8x =
+    //	t
+    '\x00' ; } options	{
+    repeatCount
+= 0
+u128
+    //
+    = false ; i64_
+// trailing space 
+// `tick` ""quote"" 'q'
+= '0' ; //	t
+}
+")).
+Eval vm_compute in ("<<<M3864>>>" ++ check (runes_of_ascii "  MetaData
+
+o 
+{ char[]	BodyLength, 
+} options
+{ Foo
+	=	uint32
+i8i8
+=
+	char[
+
+    10 
+] ;
+Logon=	true 
+i64_  =
+
+    string  ; }	root
+    //
+      // @lengthOf(
+	packet 
+a1{ i8i8`tab	here`  ,
+
+    @calculatedFrom( 
+""a	b""
+	)	string
+
+calculatedFrom@calculatedFrom(
+    ""abc"" )
+``
+
+,
+
+    }
+
+")).
+Eval vm_compute in ("<<<M4185>>>" ++ check (runes_of_ascii "/// triple
+root
+packet
+Logon{ @calculatedFrom( 
+""CRC32""
+
+)
+
+    uint8x { roots	pack
+`line1
+line2` 
+,}
+
+    ,
+string u ,	}
+	packet
+    body {  uint64  Logon
+	,
+    }	root	packet	lengthOf
+	{
+    }
+    packet A{	u32	pack // `tick` ""quote"" 'q'
+    @calculatedFrom(  // c
+""" ++ [128512]%N ++ runes_of_ascii """
+	)
+	,
+    }")).
+Eval vm_compute in ("<<<M4357>>>" ++ check (runes_of_ascii "root
+packet
+    a1	{ repeat  
+  /// triple
+    zchar[
+
+42
+
+    ] x_y_z , @tag(
+65535
+)
+    @tag( 
+    // c
+    7)// " ++ [128512]%N ++ runes_of_ascii " emoji
+
+@lengthOf( // c
+	A  )  string 
+        //
+	// " ++ [27880; 37322]%N ++ runes_of_ascii "
+	calculatedFrom
+    , string uint8x,
+
+}
+    MetaData 
+
+// trailing space 
+    	MetaDataX{
+
+}
+")).
+Eval vm_compute in ("<<<M25>>>" ++ check (runes_of_ascii "
+root packet  calculatedFrom { repeat Header
+, } MetaData Header{ zchar[// packet A { u8 x, }
+10
+]	As
+    ,// trailing space 
+string
+chars, crc Logon `u8 x,`  , Z9_ Logon ,	}packet trueish
+    {}
+    MetaData
+A { }  options { options1
+=
+' '
+    //
+    ; //	t
+}
+")).
+Eval vm_compute in ("<<<M55>>>" ++ check (runes_of_ascii "// " ++ [27880; 37322]%N ++ runes_of_ascii "
+options { u8x
+=false}	packet crc
+{ @leftPad
+    ( // `tick` ""quote"" 'q'
+'\x00'
+)@calculatedFrom( ""a\""b"" ) char[] u@lengthOf(
+    x ), stringy
+charz	`" ++ [233]%N ++ runes_of_ascii "`
+// c
+// c
+,
+} packet
+// c
+//x
+tag {
+    string T,zchar[ 7
+    ] leftPad ,// `tick` ""quote"" 'q'
+}
+")).
+Eval vm_compute in ("<<<M1513>>>" ++ check (runes_of_ascii "packet
+//	t
+// trailing space 
+_x {
+// packet A { u8 x, }
+// c
+char[
+3
+    ] ] u8x @lengthOf(
+u8x ) , @calculatedFrom(""" ++ [128512]%N ++ runes_of_ascii """ // @lengthOf(
+)
+i16	Foo
+@lengthOf(	string_
+    )`doc`	, repeat	i64 metadata , @lengthOf( string_
+) i8 // c
+u  `line1
+line2`	,
+}
+")).
+Eval vm_compute in ("<<<M1666>>>" ++ check (runes_of_ascii "packet
+//	t
+// trailing spa'ce 
+_x {
+// packet A { u8 x, }
+// c
+char[
+3
+    ] u8x @lengthOf(
+u8x ) , @calculatedFrom(""" ++ [128512]%N ++ runes_of_ascii """ // @lengthOf(
+)
+i16	Foo
+@lengthOf(	string_
+    )`doc`	, repeat	i64 metadata , @lengthOf( string_
+) i8 // c
+u  `line1
+line2`	,
+}
+")).
+Eval vm_compute in ("<<<M1599>>>" ++ check (runes_of_ascii "packet
+//	t
+// trailing space 
+_x {
+// packet A { u8 x, }
+// c
+char[
+3
+    ] u8x @lengthOf(
+u8x ) , @calculatedFrom(""" ++ [128512]%N ++ runes_of_ascii """ // @lengthOf(
+)
+i16	Foo
+@lengthOf(	string_
+    )`doc`	, repeat	metadata i64 , @lengthOf( string_
+) i8 // c
+u  `line1
+line2`	,
+}
+")).
+Eval vm_compute in ("<<<M1284>>>" ++ check (runes_of_ascii "/// triple
+packet BodyLength { @calculatedFrom( ""packet"" ) //x
+char[]
+    options1 @calculatedFrom( ""\" ++ [233]%N ++ runes_of_ascii """ )
+,zchar[ 255 // " ++ [128512]%N ++ runes_of_ascii " emoji
+] metadata , }options	{ int =	'\x00'; stringy =
+false
+    T
+    // " ++ [128512]%N ++ runes_of_ascii " emoji
+    =
+    0 trueish
+    =
+    //	t
+    10
+}
+")).
+Eval vm_compute in ("<<<M1572>>>" ++ check (runes_of_ascii "packet
+//	t
+// trailing space 
+_x {
+// packet A { u8 x, }
+// c
+char[
+3
+    ] u8x @lengthOf(
+u8x ) , @calculatedFrom(""" ++ [128512]%N ++ runes_of_ascii """ // @lengthOf(
+)
+i16	Foo
+@lengthOf(	
+    )`doc`	, repeat	i64 metadata , @lengthOf( string_
+) i8 // c
+u  `line1
+line2`	,
+}
+")).
+Eval vm_compute in ("<<<M720>>>" ++ check (runes_of_ascii "options {metadata
+    =
+char[
+    10]	tag= 007 ; stringy =0 ;x_y_z
+= true // a // b
+; }  root	packet o // " ++ [27880; 37322]%N ++ runes_of_ascii "
+{ @tag( // a // b
+3 ) @leftPad
+(
+'0' )
+@tag(
+// packet A { u8 x, }
+// a // b
+00 ) i64_  @lengthOf(
+    //
+    falsey	)	, }
+")).
+Eval vm_compute in ("<<<M3667>>>" ++ check (runes_of_ascii "packet
+Sub	{
+u8 a
+,	@calculatedFrom(""CRC16"" 
+) u16  SubSum ,
+} root	packet Frame 
+{u16  MsgType ,
+	u16
+
+BodyLen
+    @lengthOf(
+
+Body)
+	, 
+Sub 
+Body ,
+string note, @calculatedFrom( ""CRC16""	)
+	u16
+    Checksum,u8
+    tail
+	,}
+")).
+Eval vm_compute in ("<<<M4042>>>" ++ check (runes_of_ascii "MetaData 	 // packet A { u8 x, }
+matchKey {  u64
+leftPad
+
+    //x
+, u32
+	T
+	`it's`,
+	uint8
+	x ,
+// packet A { u8 x, }
+  char[]
+	f32a
+
+`say ""hi""`,	f64 	 // trailing space 
+
+	stringy	``
+
+,lengthOf
+	Packet`say ""hi""`
+
+,
+
+}")).
+Eval vm_compute in ("<<<M1196>>>" ++ check (runes_of_ascii "packet  lengthOf{
+@tag( 65535 )	match crc as
+    i8i8 {[65535 , 42 , ""it's"", ""x y"",
+    7,
+    // trailing space 
+    ""a	b""
+] : float , 00
+: MetaDataX , 00 : options1 // " ++ [128512]%N ++ runes_of_ascii " emoji
+,	1 :a1, 0 : packetx
+    ,}
+    , }")).
+Eval vm_compute in ("<<<M1621>>>" ++ check (runes_of_ascii "packet
+//	t
+// trailing space 
+_x {
+// packet A { u8 x, }
+// c
+char[
+3
+    ] u8x @lengthOf(
+u8x ) , @calculatedFrom(""" ++ [128512]%N ++ runes_of_ascii """ // @lengthOf(
+)
+i16	Foo
+@lengthOf(	string_
+    )`doc`	, repeat	i64 metadata , @lengthOf(")).
 Eval vm_compute in ("<<<M1717>>>" ++ check (runes_of_ascii "options { trueish = ""`tick`"" ; string_= """ ++ [233]%N ++ runes_of_ascii "t" ++ [233]%N ++ runes_of_ascii """
     // c
     } } root
@@ -2303,21 +2321,33 @@ packet Logon {
 u16 string_ `u8 x,` ,
 }
 ")).
-Eval vm_compute in ("<<<M3993>>>" ++ check (runes_of_ascii "options {
-    trueish = ""`tick`"";
-    string_ = """ ++ [233]%N ++ runes_of_ascii "t" ++ [233]%N ++ runes_of_ascii """
-}
+Eval vm_compute in ("<<<M3912>>>" ++ check (runes_of_ascii "
 
-root packet body {
-    stringy @calculatedFrom(""a	b"") `line1
-        line2`,
-}
+  packet 
+	// " ++ [27880; 37322]%N ++ runes_of_ascii "
+  Foo{	//x
+uint8x
 
-packet Logon {
-    @leftPad(' ')
-    //	t
-    i64 string_ `u8 x,`,
-}")).
+// " ++ [27880; 37322]%N ++ runes_of_ascii "
+  // " ++ [128512]%N ++ runes_of_ascii " emoji
+    ,
+
+    match  len
+    as
+
+options1 
+    // a // b
+    // trailing space 
+    { 3  /// triple
+    :
+
+    i64_
+
+    ,
+    } 
+,
+
+    } ")).
 Eval vm_compute in ("<<<M1798>>>" ++ check (runes_of_ascii "options { trueish = ""`tick`"" ; string_= """ ++ [233]%N ++ runes_of_ascii "t" ++ [233]%N ++ runes_of_ascii """
     // c
     } root
@@ -2342,82 +2372,100 @@ packet Logon {
 u16 string_ `u8 x,` ,
 }
 ")).
-Eval vm_compute in ("<<<M690>>>" ++ check (runes_of_ascii "packet // a // b
-rootA {Z9_ // c
-u `doc`, // packet A { u8 x, }
-i16 options1 `// not a comment` , @rightPad
-(
-' '
-    )	lengthOf
-{	zchar[// a // b
-3 // packet A { u8 x, }
-] body,
-    }
-    , } 	 ")).
-Eval vm_compute in ("<<<M1984>>>" ++ check (runes_of_ascii "MetaData
-    u { }  options {
-// c
+Eval vm_compute in ("<<<M901>>>" ++ check (runes_of_ascii "packet trueish { @calculatedFrom( """ ++ [28040; 24687]%N ++ runes_of_ascii """ )	repeat
+    Foo
+    {
+repeat float32
+    Logon `" ++ [28040; 24687; 31867; 22411]%N ++ runes_of_ascii "` ,
+    repeat roots zchar , repeat
+char[]	Logon , u8 Logon @lengthOf(
+    f32a) `a\`
+    ,	} ,
+    } //")).
+Eval vm_compute in ("<<<M4592>>>" ++ check (runes_of_ascii "//	t
+options {
+    packetx = '\x00'
+    len = false// packet A { u8 x, }
+    As = ""a\""b"";
+}
+
+packet BodyLength {
+    string options1 `crlf
+    line`,// c
+    repeatCount @lengthOf(matchKey),
+}")).
+Eval vm_compute in ("<<<M1169>>>" ++ check (runes_of_ascii "packet i64_ {match
+tag as x
+{ """ ++ [128512]%N ++ runes_of_ascii """ : string_ ,
+    ""a\\"" : rootA ,
+""abc""
+    :
+    pack , },
+@tag( 3 ) // @lengthOf(
+string metadata , string stringy
+`u8 x,`
 // @lengthOf(
-float = int8 ;rootA =false ; As =	int16 // `tick` ""quote"" 'q'
+// a // b
+, }
+")).
+Eval vm_compute in ("<<<M785>>>" ++ check (runes_of_ascii "MetaData lengthOf
+    { asx x,
+i8 MetaDataX,	string
+/// triple
+// trailing space 
+_x ,
 repeatCount
-    // trailing space 
-    =
-    int16
-; u8x =
-    //	t
-    '\x00' ;")).
-Eval vm_compute in ("<<<M3210>>>" ++ check (runes_of_ascii "packet metadata // c1a
-  // c1b
-{ Logon // c3
-{ // c4
-A `" ++ [28040; 24687; 31867; 22411]%N ++ runes_of_ascii "`
-    // c6
-, // c7a
-  // c7b
-tag o , // c10a
-  // c10b
-} // c11a
-  // c11b
-, // c12
-zchar len // c14
-`// not a comment` , } ")).
-Eval vm_compute in ("<<<M967>>>" ++ check (runes_of_ascii "packet
-f32a {int16 x	@calculatedFrom( ""{,}"" ) ,  repeat char[]
-    As	, repeat char[] u128 , stringy @calculatedFrom( ""a	b"") ,
-    } MetaData A
-    { zchar[
-    65535	] //
-body,}")).
-Eval vm_compute in ("<<<M3887>>>" ++ check (runes_of_ascii "
-MetaData options1	{
-	lengthOf As
-	,char[
-
-    255	] crc
-, char[]leftPad
-
-    ,As 
-    //	t
-    	//
-    leftPad,
-    uint16 
-u128 ,f32	//
-	x`{ , }`
-, } 
-
-    //	t
- 
-")).
-Eval vm_compute in ("<<<M1257>>>" ++ check (runes_of_ascii "root packet falsey {
-repeat char[] leftPad	, repeat
-f64 // " ++ [128512]%N ++ runes_of_ascii " emoji
-_x `{ , }` , @tag(  0)
-    // `tick` ""quote"" 'q'
-    uint64 float
-    @calculatedFrom(""{,}"") , }
-")).
-Eval vm_compute in ("<<<M2405>>>" ++ check (runes_of_ascii "// c
-packet packet x { @lengthOf( metadata ) repeat lengthOf
+    Pad,zchar[
+// trailing space 
+//
+00 ]crc// @lengthOf(
+`two words`
+, } //x")).
+Eval vm_compute in ("<<<M216>>>" ++ check (runes_of_ascii "MetaData msg_type { }root
+    packet T{@rightPad (
+    )
+    repeat char[ 3 ]	x_y_z ,
+    @lengthOf(
+roots  ) string	i64_ @lengthOf(
+u8x // a // b
+) `// not a comment`	,}")).
+Eval vm_compute in ("<<<M146>>>" ++ check (runes_of_ascii "root packet	BodyLength
+    {
+    // " ++ [27880; 37322]%N ++ runes_of_ascii "
+    @lengthOf( asx) repeat char[ 007
+] matchKey ,char[]
+MetaDataX @lengthOf(
+Foo) `tab	here` ,
+repeat uint64 //	t
+f32a
+, }")).
+Eval vm_compute in ("<<<M318>>>" ++ check (runes_of_ascii "
+MetaData roots {
+As  asx , char[1 ] roots
+,
+    // c
+    char[
+    007]
+    matchKey ,/// triple
+zchar[ 1	] len ,x_y_z
+// trailing space 
+/// triple
+u128 , }")).
+Eval vm_compute in ("<<<M2137>>>" ++ check (runes_of_ascii "options{
+_x
+= true
+} options
+{ o	= /// triple
+false
+    ; `two words`
+= ""\n"" } root packet	Pad
+/// triple
+// packet A { u8 x, }
+{	chars
+    // a // b
+    ,}")).
+Eval vm_compute in ("<<<M2325>>>" ++ check (runes_of_ascii "// c
+packet x { @lengthOf( metadata ) ) repeat lengthOf
 ,a1{
 trueish	,// c
 repeat//	t
@@ -2426,237 +2474,248 @@ MetaDataX , } , zchar[
 ,
     }
 ")).
-Eval vm_compute in ("<<<M4424>>>" ++ check (runes_of_ascii "packet x_y_z {
-    @lengthOf(roots)
-    u32 Pad `{ , }`,
-    // packet A { u8 x, }
-    repeat body {
-        repeat body roots `line1
-        line2`,
+Eval vm_compute in ("<<<M1242>>>" ++ check (runes_of_ascii "packet Z9_{
+// trailing space 
+// " ++ [128512]%N ++ runes_of_ascii " emoji
+@calculatedFrom( ""1"" )// packet A { u8 x, }
+matchKey @calculatedFrom(
+""" ++ [128512]%N ++ runes_of_ascii """ ) `tab	here` ,}
+// packet A { u8 x, }
+")).
+Eval vm_compute in ("<<<M2407>>>" ++ check (runes_of_ascii "// c
+packet x { @lengthOf( metadata repeat ) lengthOf
+,a1{
+trueish	,// c
+repeat//	t
+MetaDataX , } , zchar[
+    42	] rootA // `tick` ""quote"" 'q'
+,
+    }
+")).
+Eval vm_compute in ("<<<M2086>>>" ++ check (runes_of_ascii "options{
+=
+_x true
+} options
+{ o	= /// triple
+false
+    ; chars
+= ""\n"" } root packet	Pad
+/// triple
+// packet A { u8 x, }
+{	chars
+    // a // b
+    ,}")).
+Eval vm_compute in ("<<<M673>>>" ++ check (runes_of_ascii "packet
+A //
+{
+@tag(255
+) @lengthOf(
+// packet A { u8 x, }
+//
+x
+    )  u `crlf
+line`,
+repeat
+body { zchar[ 00
+    //	t
+    ]  crc`a\`
+    , }// c
+, }")).
+Eval vm_compute in ("<<<M2164>>>" ++ check (runes_of_ascii "options{
+_x
+= true
+} options
+{ o	= /// triple
+false
+    ; chars
+= ""\n"" } root packet	
+/// triple
+// packet A { u8 x, }
+{	chars
+    // a // b
+    ,}")).
+Eval vm_compute in ("<<<M2124>>>" ++ check (runes_of_ascii "options{
+_x
+= true
+} options
+{ o	= /// triple
+
+    ; chars
+= ""\n"" } root packet	Pad
+/// triple
+// packet A { u8 x, }
+{	chars
+    // a // b
+    ,}")).
+Eval vm_compute in ("<<<M3882>>>" ++ check (runes_of_ascii "  root
+    packet 
+
+    // c
+    matchKey  {
+zchar[  3
+	]pack @calculatedFrom( ""a	b"" )
+    `doc` , }
+options {} MetaData
+	A{ int8 msg_type	, }
+
+")).
+Eval vm_compute in ("<<<M1005>>>" ++ check (runes_of_ascii "root  packet
+    leftPad { int64 BodyLength `// not a comment` ,	@tag(0 ) @leftPad( ) @tag( 255
+    )
+repeat Header // @lengthOf(
+, } // c")).
+Eval vm_compute in ("<<<M588>>>" ++ check (runes_of_ascii "MetaData
+packetx  { string
+//	t
+//
+matchKey, /// triple
+u8
+    trueish
+    ,
+// packet A { u8 x, }
+// `tick` ""quote"" 'q'
+} // a // b")).
+Eval vm_compute in ("<<<M4259>>>" ++ check (runes_of_ascii "packet A {
+    match k as n {
+        [
+            1, 22, ""c c"", 4, 5,
+            ""f"", 7
+        ] : B,
+        2 : C,
     },
 }")).
-Eval vm_compute in ("<<<M2374>>>" ++ check (runes_of_ascii "// c
-packet x { @lengthOf( metadata ) repeat lengthOf
-10 a1{
-trueish	,// c
-repeat//	t
-MetaDataX , } , zchar[
-    42	] rootA // `tick` ""quote"" 'q'
-,
-    }
-")).
-Eval vm_compute in ("<<<M2130>>>" ++ check (runes_of_ascii "options{
-_x
-= true
-} options
-{ o	= /// triple
-false
-    ; ; chars
-= ""\n"" } root packet	Pad
-/// triple
-// packet A { u8 x, }
-{	chars
-    // a // b
-    ,}")).
-Eval vm_compute in ("<<<M2082>>>" ++ check (runes_of_ascii "options _x
-{
-= true
-} options
-{ o	= /// triple
-false
-    ; chars
-= ""\n"" } root packet	Pad
-/// triple
-// packet A { u8 x, }
-{	chars
-    // a // b
-    ,}")).
-Eval vm_compute in ("<<<M2106>>>" ++ check (runes_of_ascii "options{
-_x
-= true
-} {
-options o	= /// triple
-false
-    ; chars
-= ""\n"" } root packet	Pad
-/// triple
-// packet A { u8 x, }
-{	chars
-    // a // b
-    ,}")).
-Eval vm_compute in ("<<<M2129>>>" ++ check (runes_of_ascii "options{
-_x
-= true
-} options
-{ o	= /// triple
-false
-     chars
-= ""\n"" } root packet	Pad
-/// triple
-// packet A { u8 x, }
-{	chars
-    // a // b
-    ,}")).
-Eval vm_compute in ("<<<M3751>>>" ++ check (runes_of_ascii "/// triple
-
-	options {Header
-	=
-65535;
-    calculatedFrom
-    =
-    ""x y""
-	trueish =
-	true  i8i8= false metadata// trailing space 
-  =
-""" ++ [28040; 24687]%N ++ runes_of_ascii """
-	; }
-
-")).
-Eval vm_compute in ("<<<M2384>>>" ++ check (runes_of_ascii "// c
-packet x { @lengthOf( metadata ) repeat lengthOf
-,a1{
-trueish	,// c
-repeat//	t
-MetaDataX , } , zchar[
-    42	] rootA // `tick` ""quote"" 'q'
-,")).
-Eval vm_compute in ("<<<M4460>>>" ++ check (runes_of_ascii "
-options
-
-    {
-    MetaDataX =
-""\" ++ [233]%N ++ runes_of_ascii """ 
-}
-options
-
-{ 
-
-// @lengthOf(
-    //	t
-    Logon
-	=""1""  x_y_z
-
-= 65535 
-}
-	MetaData 
-    //	t
-	u8x{}
-")).
-Eval vm_compute in ("<<<M3678>>>" ++ check (runes_of_ascii "
-
-  options
-
-    { 
-Logon
-    = char[
-0
-] 
-;
-
-}
-
-packet	chars
-    {  u8
-u
-    `u8 x,`
-
-    , 
-}options
-
-    {
-metadata
-=
-	0
-    }
-")).
-Eval vm_compute in ("<<<M4212>>>" ++ check (runes_of_ascii "  options { }
-
-    packet As
-{f32 int @calculatedFrom( 
-""{,}"" )
-	, u8	packetx
-	,
-u128 
-len
+Eval vm_compute in ("<<<M1064>>>" ++ check (runes_of_ascii "MetaData u
+    // packet A { u8 x, }
+    { packetx A
+    , /// triple
+zchar[ 10 ] Packet
+    `" ++ [28040; 24687; 31867; 22411]%N ++ runes_of_ascii "`,
+char[ 10 ]x
     ,
-
 }
-
-packet
-
-    options1	{}
 ")).
-Eval vm_compute in ("<<<M4203>>>" ++ check (runes_of_ascii "packet
+Eval vm_compute in ("<<<M4478>>>" ++ check (runes_of_ascii "packet
 
-    metadata
-{  Logon
+    A {	match	k as n
+	{
 
-    { A `" ++ [28040; 24687; 31867; 22411]%N ++ runes_of_ascii "`, tag
-
-    o
-, }
-
+[
+	""a"" ,""bb"" ,""c c""
 ,
-    zchar  
-  // c
-      len
-	`// not a comment`
-	,
-	} ")).
-Eval vm_compute in ("<<<M1009>>>" ++ check (runes_of_ascii "root packet // @lengthOf(
-options1
-{ repeat f32a, @calculatedFrom( ""\n"" )
-    i8 Packet ,
-    }  options { a1 = uint64  ;
-}")).
-Eval vm_compute in ("<<<M3310>>>" ++ check (runes_of_ascii "// c
-root packet matchKey { zchar[ 3 ] pack @calculatedFrom( ""a	b"" ) `doc` , } options { } MetaData A { int8 msg_type , }")).
-Eval vm_compute in ("<<<M3343>>>" ++ check (runes_of_ascii "root packet matchKey { zchar[ 3 ] pack @calculatedFrom( ""a	b"" ) `doc` , } options {
+""d""
+
+    ,
+""e""
+,
+
+""f""  ,""g""
+	, ""h"" 
+, ""i""
+]
+	: B  2
+	: C},
+}
+")).
+Eval vm_compute in ("<<<M3337>>>" ++ check (runes_of_ascii "root packet matchKey { zchar[ 3 ] pack @calculatedFrom( ""a	b"" ) `doc` ,
 // c
-} MetaData A { int8 msg_type , }")).
-Eval vm_compute in ("<<<M1477>>>" ++ check (runes_of_ascii "
+} options { } MetaData A { int8 msg_type , }")).
+Eval vm_compute in ("<<<M1433>>>" ++ check (runes_of_ascii "
+packet
+    falsey { Header@calculatedFrom(""packet""  ) , , char[
+    0123456789 ] packetx
+    , } // `tick` ""quote"" 'q'")).
+Eval vm_compute in ("<<<M4534>>>" ++ check (runes_of_ascii "
+options  /// triple
+
+{  asx
+
+    = '\x00'
+; } 
+        //	t
+  options{
+pack
+
+=  ""CRC32""
+; 
+}root
+packet  f32a {}
+")).
+Eval vm_compute in ("<<<M1457>>>" ++ check (runes_of_ascii "
 packet
     falsey { Header@calculatedFrom(""packet""  ) , char[
     0123456789 ] packetx
-    " ++ [8232]%N ++ runes_of_ascii " , } // `tick` ""quote"" 'q'")).
-Eval vm_compute in ("<<<M1429>>>" ++ check (runes_of_ascii "
-packet
-    falsey { Header@calculatedFrom(""packet""  , ) char[
-    0123456789 ] packetx
-    , } // `tick` ""quote"" 'q'")).
-Eval vm_compute in ("<<<M4184>>>" ++ check (runes_of_ascii "MetaData metadata {
-    char[65535] x,
-    char[] u128,
-    pack Z9_,
-}
-
-packet a1 {
-    repeat float repeatCount,
+     } // `tick` ""quote"" 'q'")).
+Eval vm_compute in ("<<<M943>>>" ++ check (runes_of_ascii "
+options { msg_type
+=
+    42;
+    metadata  =
+""""
+;matchKey
+=
+// packet A { u8 x, }
+// `tick` ""quote"" 'q'
+u8 }
+")).
+Eval vm_compute in ("<<<M3009>>>" ++ check (runes_of_ascii "packet A {
+    u16 len @lengthOf(body) `a
+b`,
+    u32 crc @calculatedFrom(""CRC32"") `a
+b`,
+    string body,
 }")).
-Eval vm_compute in ("<<<M4140>>>" ++ check (runes_of_ascii "root packet options1 {
-    repeat f32a,
-    @calculatedFrom(""\n"")
-    i8 Packet,
-}
+Eval vm_compute in ("<<<M4531>>>" ++ check (runes_of_ascii "packet	o{
+repeat
+Logon
+uint8x, 
 
+    // c
+		}
+    options{
+
+    asx= zchar[ 3
+]  stringy =
+	'\x00'  } ")).
+Eval vm_compute in ("<<<M3015>>>" ++ check (runes_of_ascii "packet A {
+    u16 len @lengthOf(body) `
+`,
+    u32 crc @calculatedFrom(""CRC32"") `
+`,
+    string body,
+}")).
+Eval vm_compute in ("<<<M2952>>>" ++ check (runes_of_ascii "packet A {
+  match k as n {
+    [""a"", ""bb"", ""c c"", ""d"", ""e"", ""f"", ""g"", ""h"", ""i""] : B
+    2 : C
+  },
+}")).
+Eval vm_compute in ("<<<M2968>>>" ++ check (runes_of_ascii "packet A {
+  match k as n {
+    [""a"", 22, ""c c"", 4, ""e"", 66, ""g"", 8, ""i"", 10] : B,
+    2 : C
+  },
+}")).
+Eval vm_compute in ("<<<M102>>>" ++ check (runes_of_ascii "
 options {
-    a1 = uint64;
-}")).
-Eval vm_compute in ("<<<M1422>>>" ++ check (runes_of_ascii "
-packet
-    falsey { Header@calculatedFrom(  ) , char[
-    0123456789 ] packetx
-    , } // `tick` ""quote"" 'q'")).
-Eval vm_compute in ("<<<M864>>>" ++ check (runes_of_ascii "options	{ T = // packet A { u8 x, }
-true;_x = false	; A
-= ""{,}"" ; leftPad=	zchar[ 0 ] ; trueish=
-1 ;//
-}")).
-Eval vm_compute in ("<<<M289>>>" ++ check (runes_of_ascii "packet a1 {
-}
-options{
-MetaDataX = ""`tick`"" uint8x = false; f32a = zchar[	00] ; } // `tick` ""quote"" 'q'")).
-Eval vm_compute in ("<<<M1653>>>" ++ check (runes_of_ascii "packet
+a1/// triple
+=""1""
+;
+trueish	=  i64 ; stringy=""" ++ [128512]%N ++ runes_of_ascii """
+; u8x
+= 255 ;
+u128
+=
+""`tick`""; }
+
+")).
+Eval vm_compute in ("<<<M128>>>" ++ check (runes_of_ascii "MetaData msg_type
+    { char[]
+    int
+    ,  char[ 255 ]
+o ,
+    // `tick` ""quote"" 'q'
+    }")).
+Eval vm_compute in ("<<<M1531>>>" ++ check (runes_of_ascii "packet
 //	t
 // trailing space 
 _x {
@@ -2664,214 +2723,187 @@ _x {
 // c
 char[
 3
-    ] u8x @lengthOf(
-u8x ) , ")).
-Eval vm_compute in ("<<<M2959>>>" ++ check (runes_of_ascii "packet A {
-  match k as n {
-    [""a"", ""bb"", 007, ""d"", ""e"", 66, ""g"", ""h"", 9] : B,
-    2 : C
-  },
-}")).
-Eval vm_compute in ("<<<M4461>>>" ++ check (runes_of_ascii "// c
-    packet
-
-metadata {
-Logon {
-
-A`" ++ [28040; 24687; 31867; 22411]%N ++ runes_of_ascii "`
-,tag  o
-,
-} ,
-zchar	len`// not a comment` ,}
-
-")).
-Eval vm_compute in ("<<<M1365>>>" ++ check (runes_of_ascii "MetaData x_y_z {
-    // " ++ [128512]%N ++ runes_of_ascii " emoji
-    x
-    i8i8 `// not a comment` ,pack _x, //x
-i64_ len ,
-}")).
-Eval vm_compute in ("<<<M2942>>>" ++ check (runes_of_ascii "packet A {
-  match k as n {
-    [""a"", 22, ""c c"", 4, ""e"", 66, ""g"", 8] : B,
-    2 : C
-  },
-}")).
-Eval vm_compute in ("<<<M3279>>>" ++ check (runes_of_ascii "MetaData float { float64 charz `
-` // c
-, } root packet chars { @rightPad ( '0' ) Foo , }")).
-Eval vm_compute in ("<<<M3490>>>" ++ check (runes_of_ascii "packet chars {
+    ] u8x @lengthOf(")).
+Eval vm_compute in ("<<<M3520>>>" ++ check (runes_of_ascii "packet chars { } packet MetaDataX { @tag( 42 ) i16 string_ , repeat x `say ""hi""` , }
 // c
-} packet MetaDataX { @tag( 42 ) i16 string_ , repeat x `say ""hi""` , }")).
-Eval vm_compute in ("<<<M4554>>>" ++ check (runes_of_ascii "  packet
-
-A {
-
-u16// a
-  len// b
-	@lengthOf(  // c
-body	// d
-    )	// e
-	`d`// f
-  ,	} ")).
-Eval vm_compute in ("<<<M2296>>>" ++ check (runes_of_ascii "options
-{ } options { ""BodyLength= u16 Header= f64 ; u128 =
-    true
-    ; } // a // b")).
-Eval vm_compute in ("<<<M2218>>>" ++ check (runes_of_ascii "options
-{ options } { BodyLength= u16 Header= f64 ; u128 =
-    true
-    ; } // a // b")).
-Eval vm_compute in ("<<<M3229>>>" ++ check (runes_of_ascii "packet metadata { Logon { A `" ++ [28040; 24687; 31867; 22411]%N ++ runes_of_ascii "` , tag // c
-o , } , zchar len `// not a comment` , }")).
-Eval vm_compute in ("<<<M2236>>>" ++ check (runes_of_ascii "options
-{ } options { BodyLength u16 Header= f64 ; u128 =
-    true
-    ; } // a // b")).
-Eval vm_compute in ("<<<M3449>>>" ++ check (runes_of_ascii "packet o { repeat Logon uint8x , } options { asx // c
-= zchar[ 3 ] stringy = '\x00' }")).
-Eval vm_compute in ("<<<M4573>>>" ++ check (runes_of_ascii "packet stringy {
-    @lengthOf(crc)
-    string repeatCount @calculatedFrom(""{,}""),
-}")).
-Eval vm_compute in ("<<<M3394>>>" ++ check (runes_of_ascii "MetaData // c
-body { i64 pack `it's` , } packet stringy { int16 calculatedFrom , }")).
-Eval vm_compute in ("<<<M1166>>>" ++ check (runes_of_ascii "/// triple
-options
-{ Z9_ =
-007;
-// a // b
-//
-Pad =0123456789
-u  = ""CRC32""
-    }
 ")).
-Eval vm_compute in ("<<<M2908>>>" ++ check (runes_of_ascii "packet A {
+Eval vm_compute in ("<<<M3285>>>" ++ check (runes_of_ascii "MetaData float { float64 charz `
+` , } root // c
+packet chars { @rightPad ( '0' ) Foo , }")).
+Eval vm_compute in ("<<<M3496>>>" ++ check (runes_of_ascii "packet chars { } packet MetaDataX
+// c
+{ @tag( 42 ) i16 string_ , repeat x `say ""hi""` , }")).
+Eval vm_compute in ("<<<M2227>>>" ++ check (runes_of_ascii "options
+{ } options { { BodyLength= u16 Header= f64 ; u128 =
+    true
+    ; } // a // b")).
+Eval vm_compute in ("<<<M2305>>>" ++ check (runes_of_ascii "options
+{ } options { BodyLength= u16~ Header= f64 ; u128 =
+    true
+    ; } // a // b")).
+Eval vm_compute in ("<<<M2258>>>" ++ check (runes_of_ascii "options
+{ } options { BodyLength= u16 Header= ; f64 u128 =
+    true
+    ; } // a // b")).
+Eval vm_compute in ("<<<M3236>>>" ++ check (runes_of_ascii "packet metadata { Logon { A `" ++ [28040; 24687; 31867; 22411]%N ++ runes_of_ascii "` , tag o , }
+// c
+, zchar len `// not a comment` , }")).
+Eval vm_compute in ("<<<M3053>>>" ++ check (runes_of_ascii "packet A {
+    u32 crc @calculatedFrom(""x\
+y""),
+    @calculatedFrom(""x\
+y"") u8 y,
+}")).
+Eval vm_compute in ("<<<M3459>>>" ++ check (runes_of_ascii "packet o { repeat Logon uint8x , } options { asx = zchar[ 3 ] stringy // c
+= '\x00' }")).
+Eval vm_compute in ("<<<M2241>>>" ++ check (runes_of_ascii "options
+{ } options { BodyLength=  Header= f64 ; u128 =
+    true
+    ; } // a // b")).
+Eval vm_compute in ("<<<M3402>>>" ++ check (runes_of_ascii "MetaData body { i64 pack // c
+`it's` , } packet stringy { int16 calculatedFrom , }")).
+Eval vm_compute in ("<<<M2914>>>" ++ check (runes_of_ascii "packet A {
   match k as n {
-    [""a"", ""bb"", 007, ""d"", ""e""] : B
+    [1, ""bb"", 007, ""d"", 5, ""f""] : B,
+    2 : C
+  },
+}")).
+Eval vm_compute in ("<<<M2923>>>" ++ check (runes_of_ascii "packet A {
+  match k as n {
+    [1, 22, 007, 4, 5, 66, 7] : B,
     2 : C
   },
 }")).
 Eval vm_compute in ("<<<M2987>>>" ++ check (runes_of_ascii "packet A { Inner { match k as n { [1,22,007,4,5,66,7,8,9,10,11] : B, }, }, }")).
-Eval vm_compute in ("<<<M4501>>>" ++ check (runes_of_ascii "
-root
-packet 
-P {u16	a,
-    u32 Sum
+Eval vm_compute in ("<<<M4099>>>" ++ check (runes_of_ascii "
+packet
+    A
+	{ B  b
+`a
 
-@calculatedFrom(
-    ""CRC32"" )  ,
+b`
+
+,B
+
+    `a
+
+b`,repeat	B
+	bs `a
+
+b`
+,}
+
+")).
+Eval vm_compute in ("<<<M4229>>>" ++ check (runes_of_ascii "packet  A
+	{
+
+    repeat
+	B {  C{	u8
+x  ,
+} ,
+    D d ,	} ,
+    }
+")).
+Eval vm_compute in ("<<<M2948>>>" ++ check (runes_of_ascii "packet A { Inner { match k as n { [1,22,007,4,5,66,7,8] : B, }, }, }")).
+Eval vm_compute in ("<<<M2850>>>" ++ check (runes_of_ascii "@leftPad u8 int32 [ @lengthOf( @leftPad [ { ( int64 char[ ; match")).
+Eval vm_compute in ("<<<M3573>>>" ++ check (runes_of_ascii "
+
+  root
+packet
+
+P { repeat
+string
+ss
+
+,	repeat u16 ns
+,
+
+}
+
+")).
+Eval vm_compute in ("<<<M2863>>>" ++ check (runes_of_ascii "packet A {
+  match k as n {
+    [1, 22] : B
+    2 : C
+  },
 }")).
-Eval vm_compute in ("<<<M4019>>>" ++ check (runes_of_ascii "packet A {
-    match k as n {
-        [1] : B,
-        2 : C,
-    },
+Eval vm_compute in ("<<<M2860>>>" ++ check (runes_of_ascii "packet A {
+  match k as n {
+    [""a""] : B
+    2 : C
+  },
 }")).
-Eval vm_compute in ("<<<M2148>>>" ++ check (runes_of_ascii "options{
+Eval vm_compute in ("<<<M2804>>>" ++ check (runes_of_ascii "{ { int32 int32 match `a\` 255 packet '0' ) repeat '\x00'")).
+Eval vm_compute in ("<<<M3154>>>" ++ check (runes_of_ascii "packet A { match k as n { 1 : B // a // b 2 : C }, }")).
+Eval vm_compute in ("<<<M2265>>>" ++ check (runes_of_ascii "options
+{ } options { BodyLength= u16 Header= f64")).
+Eval vm_compute in ("<<<M2754>>>" ++ check (runes_of_ascii "f64 false float32 match int16 int16 '\x00' char")).
+Eval vm_compute in ("<<<M2188>>>" ++ check (runes_of_ascii "options{
 _x
 = true
 } options
-{ o	= /// triple
-false
-    ; chars
-=")).
-Eval vm_compute in ("<<<M3906>>>" ++ check (runes_of_ascii "packet  A{B	b`a
-b` ,
-	B`a
-b`
-
-    , repeat
-B
-bs`a
-b`
-
-, }
-")).
-Eval vm_compute in ("<<<M4219>>>" ++ check (runes_of_ascii "
-
-  packet x { 
-@rightPad() repeat	roots	Logon
-	`doc` ,}// c
- 
-")).
-Eval vm_compute in ("<<<M142>>>" ++ check (runes_of_ascii "options // `tick` ""quote"" 'q'
-{ repeatCount = 3/// triple
+{ o	= /// triple")).
+Eval vm_compute in ("<<<M3041>>>" ++ check (runes_of_ascii "MetaData M {
+    u8 x `
+x`,
+    T t `
+x`,
 }")).
-Eval vm_compute in ("<<<M3369>>>" ++ check (runes_of_ascii "packet x { // c
-@rightPad ( ) repeat roots Logon `doc` , }")).
-Eval vm_compute in ("<<<M3172>>>" ++ check (runes_of_ascii "packet A { @tag(1) // a
- @leftPad('0') // b
- char[4] x, }")).
-Eval vm_compute in ("<<<M263>>>" ++ check (runes_of_ascii "root
-packet i8i8 { @lengthOf(
-Packet)
-    u32 u8x, }")).
-Eval vm_compute in ("<<<M2820>>>" ++ check (runes_of_ascii "true uint8 char[ char[ false i16 @tag( match char[")).
-Eval vm_compute in ("<<<M2790>>>" ++ check (runes_of_ascii ", , [ = '\x00' string zchar '\x00' char[ ; root")).
-Eval vm_compute in ("<<<M2255>>>" ++ check (runes_of_ascii "options
-{ } options { BodyLength= u16 Header")).
-Eval vm_compute in ("<<<M2770>>>" ++ check (runes_of_ascii "as match zchar[ packet @leftPad = as zchar[")).
-Eval vm_compute in ("<<<M3960>>>" ++ check (runes_of_ascii "  packet
-    body
-{  // @lengthOf(
-    } ")).
-Eval vm_compute in ("<<<M371>>>" ++ check (runes_of_ascii "//
-packet u8x{
-    }	packet
-    crc { }")).
-Eval vm_compute in ("<<<M2741>>>" ++ check (runes_of_ascii "Si%1~!4?\#L9=!>+J5vW%0b""]sse$x8k|lJ9Z")).
-Eval vm_compute in ("<<<M1208>>>" ++ check (runes_of_ascii "options{
-Logon
-    //x
-    = ' '; }")).
-Eval vm_compute in ("<<<M2789>>>" ++ check (runes_of_ascii "= packet = ) repeat repeat options")).
-Eval vm_compute in ("<<<M1316>>>" ++ check (runes_of_ascii "packet As
-{stringy i8i8
-,} // c")).
-Eval vm_compute in ("<<<M41>>>" ++ check (runes_of_ascii "MetaData crc
-{ } // @lengthOf(")).
-Eval vm_compute in ("<<<M396>>>" ++ check (runes_of_ascii "  options
-{ a1 = ' '
-    ; }")).
-Eval vm_compute in ("<<<M1884>>>" ++ check (runes_of_ascii "MetaData
-    u { }  options")).
-Eval vm_compute in ("<<<M2818>>>" ++ check (runes_of_ascii "ykT4r3#5kWpIpr8~:{UG:h?pLl")).
-Eval vm_compute in ("<<<M990>>>" ++ check (runes_of_ascii "
-root packet
-zchar {	}
-")).
-Eval vm_compute in ("<<<M171>>>" ++ check (runes_of_ascii "packet options1 {  }
+Eval vm_compute in ("<<<M2588>>>" ++ check (runes_of_ascii "packet A { x @calculatedFrom(""c"") `d`, }")).
+Eval vm_compute in ("<<<M1715>>>" ++ check (runes_of_ascii "options { trueish = ""`tick`"" ; string_=")).
+Eval vm_compute in ("<<<M3180>>>" ++ check (runes_of_ascii "packet A { u8 x,// a
 
-")).
-Eval vm_compute in ("<<<M2108>>>" ++ check (runes_of_ascii "options{
-_x
-= true
+
+// b
+
+ u8 y, }")).
+Eval vm_compute in ("<<<M2362>>>" ++ check (runes_of_ascii "// c
+packet x { @lengthOf( metadata")).
+Eval vm_compute in ("<<<M4253>>>" ++ check (runes_of_ascii "packet A {
+    u8 x `d x`,// c x
 }")).
-Eval vm_compute in ("<<<M2640>>>" ++ check (runes_of_ascii "root MetaData M { }")).
-Eval vm_compute in ("<<<M2103>>>" ++ check (runes_of_ascii "options{
-_x
-= true")).
-Eval vm_compute in ("<<<M3130>>>" ++ check (runes_of_ascii "packet A {
+Eval vm_compute in ("<<<M3036>>>" ++ check (runes_of_ascii "root packet A {
+    u8 x `x
+`,
+}")).
+Eval vm_compute in ("<<<M2603>>>" ++ check (runes_of_ascii "packet A { match k as n { }, }")).
+Eval vm_compute in ("<<<M1326>>>" ++ check (runes_of_ascii "options { matchKey	='\x00';	}")).
+Eval vm_compute in ("<<<M2599>>>" ++ check (runes_of_ascii "packet A { B { u8 x, } C, }")).
+Eval vm_compute in ("<<<M3013>>>" ++ check (runes_of_ascii "packet A {
+    u8 x `
+`,
+}")).
+Eval vm_compute in ("<<<M4560>>>" ++ check (runes_of_ascii "
+
+  packet  packetx {
 }
-// c" ++ [8203]%N)).
-Eval vm_compute in ("<<<M3083>>>" ++ check (runes_of_ascii "packet A {
-}// c" ++ [8192]%N)).
-Eval vm_compute in ("<<<M1173>>>" ++ check (runes_of_ascii "packet f32a
-{}
 ")).
-Eval vm_compute in ("<<<M4159>>>" ++ check (runes_of_ascii "// @lengthOf(")).
+Eval vm_compute in ("<<<M4414>>>" ++ check (runes_of_ascii "packet u8x {
+    //	t
+}")).
+Eval vm_compute in ("<<<M4029>>>" ++ check (runes_of_ascii "packet A {
+    // a
+}")).
+Eval vm_compute in ("<<<M1198>>>" ++ check (runes_of_ascii "  packet i64_ { }
+
+")).
+Eval vm_compute in ("<<<M1411>>>" ++ check (runes_of_ascii "
+packet
+    falsey")).
+Eval vm_compute in ("<<<M3121>>>" ++ check (runes_of_ascii "// c" ++ [12]%N ++ runes_of_ascii "
+packet A {
+}")).
+Eval vm_compute in ("<<<M3078>>>" ++ check (runes_of_ascii "packet A {
+}// c" ++ [5760]%N)).
+Eval vm_compute in ("<<<M4141>>>" ++ check (runes_of_ascii "packet rootA {
+}")).
+Eval vm_compute in ("<<<M2690>>>" ++ check (runes_of_ascii "[" ++ [29783; 1899]%N ++ runes_of_ascii "]" ++ [65533; 65533]%N ++ runes_of_ascii "[" ++ [65533]%N ++ runes_of_ascii "'" ++ [65533; 65533; 65533; 65533]%N)).
 Eval vm_compute in ("<<<M2220>>>" ++ check (runes_of_ascii "options
 {")).
-Eval vm_compute in ("<<<M2767>>>" ++ check ([65533]%N ++ runes_of_ascii "d" ++ [65533; 65533; 65533]%N ++ runes_of_ascii "R" ++ [27; 8]%N)).
-Eval vm_compute in ("<<<M2428>>>" ++ check (runes_of_ascii "char [")).
-Eval vm_compute in ("<<<M2467>>>" ++ check (runes_of_ascii "match")).
-Eval vm_compute in ("<<<M1021>>>" ++ check (runes_of_ascii "
-
-
-")).
-Eval vm_compute in ("<<<M2439>>>" ++ check (runes_of_ascii "u80")).
-Eval vm_compute in ("<<<M247>>>" ++ check (runes_of_ascii "
-
-")).
-Eval vm_compute in ("<<<M2554>>>" ++ check ([233]%N)).
+Eval vm_compute in ("<<<M2809>>>" ++ check ([27]%N ++ runes_of_ascii "" ++ [65533; 65533; 8; 65533]%N ++ runes_of_ascii " l")).
+Eval vm_compute in ("<<<M2473>>>" ++ check (runes_of_ascii "'\x00'")).
+Eval vm_compute in ("<<<M2675>>>" ++ check (runes_of_ascii "u8 x,")).
+Eval vm_compute in ("<<<M2501>>>" ++ check (runes_of_ascii "// x")).
+Eval vm_compute in ("<<<M2524>>>" ++ check (runes_of_ascii "`\`")).
+Eval vm_compute in ("<<<M2507>>>" ++ check (runes_of_ascii """""")).
+Eval vm_compute in ("<<<M2688>>>" ++ check ([0]%N)).
